@@ -92,25 +92,126 @@ def argument_sources(tree: Tree, fn: FuncInfo, self_name: str = "self") -> list[
 # --------------------------------------------------------------------------- R-ARITY
 
 
-def self_args_unpackings(fn: FuncInfo) -> Iterator[tuple[ast.Assign, list[ast.AST], bool]]:
-    """``a, b, c = self.args`` and ``a, b = map(f, self.args)`` inside ``fn``.
+def args_image(val: ast.AST, inst: str = "self") -> bool | None:
+    """Is ``val`` the sequence ``<inst>.args`` element by element - the tuple itself, ``tuple(..)`` / ``list(..)`` / ``[:]`` of
+    it, or an element-wise image (``map(f, ..)``, ``[f(a) for a in ..]``)?  Returns whether the elements were mapped,
+    or None if ``val`` is something else."""
+    through = False
+    for _ in range(12):
+        if isinstance(val, ast.Attribute) and val.attr in {"args", "_args"} and isinstance(val.value, ast.Name) and val.value.id == inst:
+            return through
+        if isinstance(val, ast.Call) and isinstance(val.func, ast.Name) and val.func.id in {"tuple", "list", "iter"} and len(val.args) == 1 and not val.keywords:
+            val = val.args[0]
+        elif isinstance(val, ast.Call) and isinstance(val.func, ast.Name) and val.func.id == "map" and len(val.args) == 2 and not val.keywords:
+            val, through = val.args[1], True
+        elif isinstance(val, (ast.ListComp, ast.GeneratorExp)) and len(val.generators) == 1 and not val.generators[0].ifs and not val.generators[0].is_async:
+            val, through = val.generators[0].iter, True
+        elif isinstance(val, ast.Subscript) and isinstance(val.slice, ast.Slice) and val.slice.lower is None and val.slice.upper is None and val.slice.step is None:
+            val = val.value
+        else:
+            return None
+    return None
+
+
+def _value_inliner(fn: FuncInfo, tree: Tree | None):
+    """Substitution of single-definition locals and (with a tree) of calls of package helpers by the value they return."""
+    from .inline import CallInliner, Inliner
+
+    try:
+        return CallInliner(tree, fn) if tree is not None else Inliner(fn.node)
+    except Exception:  # noqa: BLE001 - an inliner that cannot be built only means: read the expression as written
+        return None
+
+
+def self_args_unpackings(fn: FuncInfo, tree: Tree | None = None) -> Iterator[tuple[ast.Assign, list[ast.AST], bool]]:
+    """``a, b, c = self.args`` / ``a, b = map(f, self.args)`` / ``a, b = [f(x) for x in self.args]`` inside ``fn`` - also when
+    the sequence is first bound to a local or (with ``tree``) produced by a helper of the package that returns it
+    (``a, b = _print_arguments(printer, self)``).
 
     Yields (statement, target elements, through_map)."""
+    inl = None
     for node in walk_function(fn.node):
         if not isinstance(node, ast.Assign) or len(node.targets) != 1:
             continue
         tgt = node.targets[0]
         if not isinstance(tgt, (ast.Tuple, ast.List)):
             continue
-        val = node.value
-        through_map = False
-        if isinstance(val, ast.Call) and isinstance(val.func, ast.Name) and val.func.id in {"map", "tuple", "list"}:
-            if val.func.id == "map" and len(val.args) == 2:
-                val, through_map = val.args[1], True
-            elif val.func.id in {"tuple", "list"} and len(val.args) == 1:
-                val = val.args[0]
-        if isinstance(val, ast.Attribute) and val.attr == "args" and isinstance(val.value, ast.Name) and val.value.id == "self":
-            yield node, list(tgt.elts), through_map
+        through = args_image(node.value)
+        if through is None and not isinstance(node.value, (ast.Tuple, ast.List, ast.Constant)):
+            if inl is None:
+                inl = _value_inliner(fn, tree) or False
+            if inl:
+                try:
+                    through = args_image(inl.expr(node.value))
+                except Exception:  # noqa: BLE001
+                    through = None
+        if through is not None:
+            yield node, list(tgt.elts), through
+
+
+def args_star_calls(tree: Tree, fn: FuncInfo) -> Iterator[tuple[ast.Call, FuncInfo, int]]:
+    """``helper(x, *self.args, ...)`` inside ``fn`` where ``helper`` is a function of the package: the SymPy arguments are bound
+    to the helper's parameters by position.  Yields (call, callee, number of positional arguments before the star)."""
+    inl = None
+    for node in walk_function(fn.node):
+        if not isinstance(node, ast.Call):
+            continue
+        stars = [i for i, a in enumerate(node.args) if isinstance(a, ast.Starred)]
+        if len(stars) != 1:
+            continue
+        val = node.args[stars[0]].value
+        image = args_image(val)
+        if image is None and isinstance(val, ast.Name):
+            if inl is None:
+                inl = _value_inliner(fn, tree) or False
+            if inl:
+                try:
+                    image = args_image(inl.expr(val))
+                except Exception:  # noqa: BLE001
+                    image = None
+        if image is None:
+            continue
+        callee = tree.funcs.get(tree.callee(node, tree.func_of(node) or fn) or "")
+        if callee is not None:
+            yield node, callee, stars[0]
+
+
+def args_index_reads(fn: FuncInfo) -> Iterator[tuple[ast.Subscript, int, str | None]]:
+    """``self.args[k]`` with a literal k inside ``fn``.  Yields (node, k, name of the local it is stored in - directly or
+    through ``printer._print(..)`` - or None)."""
+    from .loader import parent
+
+    inl = None
+    for node in walk_function(fn.node):
+        if not (isinstance(node, ast.Subscript) and isinstance(node.ctx, ast.Load)):
+            continue
+        image = args_image(node.value)
+        if image is None and isinstance(node.value, ast.Name):  # `printed = list(map(printer._print, self.args)); printed[2]`
+            if inl is None:
+                inl = _value_inliner(fn, None) or False
+            if inl:
+                try:
+                    image = args_image(inl.expr(node.value))
+                except Exception:  # noqa: BLE001
+                    image = None
+        if image is None:
+            continue
+        idx = node.slice
+        if isinstance(idx, ast.UnaryOp) and isinstance(idx.op, ast.USub) and isinstance(idx.operand, ast.Constant) and isinstance(idx.operand.value, int):
+            k = -idx.operand.value
+        elif isinstance(idx, ast.Constant) and isinstance(idx.value, int) and not isinstance(idx.value, bool):
+            k = idx.value
+        else:
+            continue
+        holder: ast.AST | None = parent(node)
+        if isinstance(holder, ast.Call) and isinstance(holder.func, ast.Attribute) and (holder.func.attr.startswith("_print") or holder.func.attr == "doprint") and holder.args and holder.args[0] is node:
+            holder = parent(holder)
+        target = None
+        if isinstance(holder, ast.Assign) and len(holder.targets) == 1 and isinstance(holder.targets[0], ast.Name):
+            target = holder.targets[0].id
+        elif isinstance(holder, ast.AnnAssign) and isinstance(holder.target, ast.Name):
+            target = holder.target.id
+        yield node, k, target
 
 
 def check_arity(cls: ExprClass, elts: list[ast.AST]) -> str | None:
@@ -366,47 +467,645 @@ def _skeleton(node: ast.AST) -> str | None:
     return None
 
 
+class NameReader:
+    """Abstract evaluation of a ``str``-valued expression into NAME SKELETONS (R-SYMPAIR engine).
+
+    ``NameReader(tree).read(node, fn)`` returns the alternatives the expression can evaluate to, each a tuple of
+    parts: literal text (``str``) or a hole ``("hole", provenance)`` for a piece that is only known at run time.
+    What is read (so that the spelling of a name does not matter):
+
+    * literals, f-strings (``!s`` / no format spec), ``a + b``, ``"...%s..." % x``, ``"...{}...".format(x)``,
+      ``sep.join([a, b])`` over a known sequence, ``str(x)``, conditional expressions / ``or`` (both alternatives),
+    * locals through their reaching definitions (several definitions = several alternatives; ``s += t``; tuple
+      unpacking from a display), module-level string constants,
+    * loop / comprehension variables over a KNOWN sequence (a display, a module-level constant tuple,
+      ``enumerate`` / ``zip`` / ``sorted`` / ``tuple`` / ``list`` of one): one alternative per element,
+    * parameters of private helpers and nested functions (every caller is in the package): the alternatives of the
+      argument at each call site (default value if not passed); a call of a private helper that returns a ``str``
+      is read through its ``return`` expressions with the arguments bound,
+    * anything else (calls of public functions, attributes, subscripts, parameters of public functions) is a hole
+      whose provenance names where the piece comes from (``call:<function>``, ``param``, ``attr``, ...).
+
+    ``text(alt)`` renders an alternative as a skeleton (hole -> ``{}``); an alternative that is ONE hole says
+    nothing about the name (``None``: computed at run time).  Nothing is executed.
+    """
+
+    MAX_ALTS = 48
+    MAX_DEPTH = 14
+    SEQ_WRAPPERS = {"sorted", "tuple", "list", "reversed", "set", "frozenset", "iter"}
+
+    def __init__(self, tree: Tree) -> None:
+        self.tree = tree
+        self._rds: dict[int, RD] = {}
+        self._callers: dict[str, list[tuple[FuncInfo, ast.Call]]] | None = None
+
+    # ------------------------------------------------------------------ helpers
+    @staticmethod
+    def hole(prov: str) -> tuple:
+        return (("hole", prov),)
+
+    @staticmethod
+    def text(alt: tuple) -> str | None:
+        if len(alt) == 1 and not isinstance(alt[0], str):
+            return None
+        return "".join(p if isinstance(p, str) else "{}" for p in alt)
+
+    @staticmethod
+    def provenances(alt: tuple) -> list[str]:
+        return [p[1] for p in alt if not isinstance(p, str)]
+
+    @staticmethod
+    def _norm(parts) -> tuple:
+        out: list = []
+        for p in parts:
+            if isinstance(p, str):
+                if not p:
+                    continue
+                if out and isinstance(out[-1], str):
+                    out[-1] += p
+                    continue
+            out.append(p)
+        return tuple(out)
+
+    def _concat(self, a: set, b: set) -> set:
+        out = {self._norm([*x, *y]) for x in a for y in b}
+        return out if len(out) <= self.MAX_ALTS else {self.hole("too-many-alternatives")}
+
+    def rd(self, fn: FuncInfo) -> RD:
+        root = fn
+        while root.outer is not None:
+            root = root.outer
+        if id(root.node) not in self._rds:  # (an effective function of sa/inline.py has the qualname of the original)
+            self._rds[id(root.node)] = RD(root.node)
+        return self._rds[id(root.node)]
+
+    def callers(self, fn: FuncInfo) -> list[tuple[FuncInfo, ast.Call]]:
+        if self._callers is None:
+            self._callers = {}
+            for g in self.tree.funcs.values():
+                for node in walk_function(g.node, nested=False):
+                    for call in ([node] if isinstance(node, ast.Call) else []):
+                        q = self.tree.callee(call, g)
+                        if q in self.tree.funcs:
+                            self._callers.setdefault(q, []).append((g, call))
+                    if isinstance(node, ast.Lambda):
+                        for call in [n for n in ast.walk(node) if isinstance(n, ast.Call)]:
+                            q = self.tree.callee(call, g)
+                            if q in self.tree.funcs:
+                                self._callers.setdefault(q, []).append((g, call))
+        return self._callers.get(fn.qual, [])
+
+    def is_private(self, fn: FuncInfo) -> bool:
+        """Every caller is visible: a nested function, or a `_name` that is not a dunder and is never passed around
+        as a value."""
+        n = fn.name
+        if fn.outer is None and (not n.startswith("_") or (n.startswith("__") and n.endswith("__"))):
+            return False
+        cached = getattr(fn, "_never_a_value", None)
+        if cached is None:
+            cached = True
+            for node in ast.walk(fn.outer.node if fn.outer is not None else fn.module.tree):
+                ref = (isinstance(node, ast.Name) and node.id == n) or (isinstance(node, ast.Attribute) and node.attr == n)
+                if ref and isinstance(node.ctx, ast.Load):
+                    par = getattr(node, "_parent", None)
+                    if not (isinstance(par, ast.Call) and par.func is node):
+                        cached = False
+                        break
+            fn._never_a_value = cached  # type: ignore[attr-defined]
+        return cached
+
+    def bind(self, fn: FuncInfo, call: ast.Call) -> dict[str, ast.AST] | None:
+        """parameter -> argument expression of one call (None: `*args` / `**kwargs` involved)."""
+        a = fn.node.args
+        if a.vararg or a.kwarg or any(isinstance(x, ast.Starred) for x in call.args) or any(k.arg is None for k in call.keywords):
+            return None
+        pos = [x.arg for x in [*a.posonlyargs, *a.args]]
+        is_static = any(unparse(d) == "staticmethod" for d in fn.node.decorator_list)
+        if fn.cls is not None and fn.outer is None and not is_static and pos:
+            recv = call.func.value if isinstance(call.func, ast.Attribute) else None
+            if recv is not None and self.tree.resolve(call._module, recv, self.tree.func_of(call)) in self.tree.classes:  # type: ignore[attr-defined]
+                pass  # Class.method(obj, ...): self is positional
+            else:
+                pos = pos[1:]
+        if len(call.args) > len(pos):
+            return None
+        bound: dict[str, ast.AST] = dict(zip(pos, call.args))
+        kwonly = [x.arg for x in a.kwonlyargs]
+        for k in call.keywords:
+            if k.arg in bound or k.arg not in [*pos, *kwonly]:
+                return None
+            bound[k.arg] = k.value
+        all_pos = [x.arg for x in [*a.posonlyargs, *a.args]]
+        defaults = dict(zip(all_pos[len(all_pos) - len(a.defaults):], a.defaults)) if a.defaults else {}
+        defaults.update({k: d for k, d in zip(kwonly, a.kw_defaults) if d is not None})
+        for p in [*pos, *kwonly]:
+            if p not in bound and p in defaults:
+                bound[p] = defaults[p]
+        return bound
+
+    # ------------------------------------------------------------------ sequences
+    def elements(self, node: ast.AST, fn: FuncInfo, depth: int = 0) -> list[ast.AST] | None:
+        """Element expressions of a sequence that is known statically (None otherwise)."""
+        if depth > 6:
+            return None
+        if isinstance(node, (ast.Tuple, ast.List, ast.Set)):
+            return None if any(isinstance(e, ast.Starred) for e in node.elts) else list(node.elts)
+        if isinstance(node, ast.Dict):
+            return None if any(k is None for k in node.keys) else list(node.keys)
+        if isinstance(node, ast.Call) and isinstance(node.func, ast.Name) and node.args and not any(isinstance(a, ast.Starred) for a in node.args):
+            name = node.func.id
+            if name in self.SEQ_WRAPPERS:
+                return self.elements(node.args[0], fn, depth + 1)
+            if name == "enumerate":
+                inner = self.elements(node.args[0], fn, depth + 1)
+                if inner is not None:
+                    return [ast.Tuple(elts=[ast.Constant(value=i), e], ctx=ast.Load()) for i, e in enumerate(inner)]
+            if name == "zip":
+                cols = [self.elements(a, fn, depth + 1) for a in node.args]
+                if all(c is not None for c in cols) and len({len(c) for c in cols}) == 1:
+                    return [ast.Tuple(elts=list(row), ctx=ast.Load()) for row in zip(*cols)]
+            return None
+        if isinstance(node, ast.Call) and isinstance(node.func, ast.Attribute) and node.func.attr in {"items", "keys", "values"} and not node.args \
+                and isinstance(node.func.value, ast.Dict) and all(k is not None for k in node.func.value.keys):
+            d = node.func.value
+            if node.func.attr == "keys":
+                return list(d.keys)
+            if node.func.attr == "values":
+                return list(d.values)
+            return [ast.Tuple(elts=[k, v], ctx=ast.Load()) for k, v in zip(d.keys, d.values)]
+        if isinstance(node, ast.Name):
+            defs = self.rd(fn).reaching(node)
+            if len(defs) == 1:
+                d = next(iter(defs))
+                if d.kind == "assign" and d.value is not None and d.index is None:
+                    return self.elements(d.value, fn, depth + 1)
+                return None
+            if not defs:
+                top = self._toplevel(node, fn)
+                if top is not None:
+                    return self.elements(top, fn, depth + 1)
+        if isinstance(node, ast.Attribute):
+            top = self._toplevel(node, fn)
+            if top is not None:
+                return self.elements(top, fn, depth + 1)
+        return None
+
+    def _toplevel(self, node: ast.AST, fn: FuncInfo) -> ast.AST | None:
+        """The value of a module-level constant ``NAME = <expr>`` that is assigned once."""
+        mod = getattr(node, "_module", None) or fn.module
+        q = self.tree.resolve(mod, node, fn)
+        if not q or "::" not in q:
+            return None
+        modname, _, name = q.partition("::")
+        m = self.tree.modules.get(modname)
+        if m is None or "." in name:
+            return None
+        st = m.toplevel.get(name)
+        if isinstance(st, (ast.Assign, ast.AnnAssign)) and st.value is not None:
+            n_stores = sum(1 for s in m.tree.body for t in (s.targets if isinstance(s, ast.Assign) else [s.target] if isinstance(s, (ast.AnnAssign, ast.AugAssign)) else [])
+                           if isinstance(t, ast.Name) and t.id == name)
+            if n_stores == 1:
+                for n in ast.walk(st.value):
+                    if not hasattr(n, "_module"):
+                        n._module = m  # type: ignore[attr-defined]
+                return st.value
+        return None
+
+    # ------------------------------------------------------------------ evaluation
+    def read(self, node: ast.AST, fn: FuncInfo, env: dict | None = None, depth: int = 0, stack: tuple = ()) -> set:
+        if depth > self.MAX_DEPTH:
+            return {self.hole("depth")}
+        ev = lambda n: self.read(n, fn, env, depth + 1, stack)  # noqa: E731
+        if isinstance(node, ast.Constant):
+            if isinstance(node.value, (str, int)) and not isinstance(node.value, bool):
+                return {self._norm([str(node.value)])} if str(node.value) else {()}
+            return {self.hole("constant")}
+        if isinstance(node, ast.JoinedStr):
+            out = {()}
+            for v in node.values:
+                if isinstance(v, ast.Constant):
+                    out = self._concat(out, {self._norm([str(v.value)])})
+                elif isinstance(v, ast.FormattedValue) and v.format_spec is None and v.conversion in (-1, 115):
+                    out = self._concat(out, ev(v.value))
+                else:
+                    out = self._concat(out, {self.hole("formatted")})
+            return out
+        if isinstance(node, ast.FormattedValue):
+            return ev(node.value)
+        if isinstance(node, ast.BinOp) and isinstance(node.op, ast.Add):
+            return self._concat(ev(node.left), ev(node.right))
+        if isinstance(node, ast.BinOp) and isinstance(node.op, ast.Mod) and isinstance(node.left, ast.Constant) and isinstance(node.left.value, str):
+            args = node.right.elts if isinstance(node.right, ast.Tuple) else [node.right]
+            pieces = re.split(r"(%%|%[sdir])", node.left.value)
+            n_spec = sum(1 for p in pieces if re.fullmatch(r"%[sdir]", p))
+            if "%(" in node.left.value or n_spec != len(args) or re.search(r"%[^sdir%]", node.left.value):
+                return {self.hole("percent-format")}
+            out, it = {()}, iter(args)
+            for p in pieces:
+                if p == "%%":
+                    out = self._concat(out, {("%",)})
+                elif re.fullmatch(r"%[sdir]", p):
+                    a = next(it)
+                    out = self._concat(out, ev(a) if p != "%r" else {self.hole("repr")})
+                elif p:
+                    out = self._concat(out, {(p,)})
+            return out
+        if isinstance(node, ast.IfExp):
+            return self._cap(ev(node.body) | ev(node.orelse))
+        if isinstance(node, ast.BoolOp):
+            out = set()
+            for v in node.values:
+                out |= ev(v)
+            return self._cap(out)
+        if isinstance(node, ast.NamedExpr):
+            return ev(node.value)
+        if isinstance(node, ast.Name):
+            return self._name(node, fn, env, depth, stack)
+        if isinstance(node, ast.Subscript):
+            elts = self.elements(node.value, fn)
+            if elts is not None and isinstance(node.slice, ast.Constant) and isinstance(node.slice.value, int) and -len(elts) <= node.slice.value < len(elts):
+                return ev(elts[node.slice.value])
+            return {self.hole("subscript:" + _head_name(node.value))}
+        if isinstance(node, ast.Attribute):
+            top = self._toplevel(node, fn)
+            if top is not None:
+                return self.read(top, fn, None, depth + 1, stack)
+            return {self.hole("attr:" + node.attr)}
+        if isinstance(node, ast.Call):
+            return self._call(node, fn, env, depth, stack)
+        return {self.hole(type(node).__name__)}
+
+    def _cap(self, alts: set) -> set:
+        return alts if len(alts) <= self.MAX_ALTS else {self.hole("too-many-alternatives")}
+
+    def _call(self, node: ast.Call, fn: FuncInfo, env, depth: int, stack: tuple) -> set:
+        ev = lambda n: self.read(n, fn, env, depth + 1, stack)  # noqa: E731
+        f = node.func
+        if isinstance(f, ast.Name) and f.id == "str" and len(node.args) == 1 and not node.keywords:
+            return ev(node.args[0])
+        if isinstance(f, ast.Attribute) and f.attr == "format" and isinstance(f.value, ast.Constant) and isinstance(f.value.value, str):
+            import string
+
+            if any(isinstance(a, ast.Starred) for a in node.args) or any(k.arg is None for k in node.keywords):
+                return {self.hole("format")}
+            out, auto = {()}, 0
+            try:
+                fields = list(string.Formatter().parse(f.value.value))
+            except ValueError:
+                return {self.hole("format")}
+            for lit, field, spec, conv in fields:
+                if lit:
+                    out = self._concat(out, {(lit,)})
+                if field is None:
+                    continue
+                arg = None
+                if field == "":
+                    arg = node.args[auto] if auto < len(node.args) else None
+                    auto += 1
+                elif field.isdigit():
+                    arg = node.args[int(field)] if int(field) < len(node.args) else None
+                else:
+                    arg = next((k.value for k in node.keywords if k.arg == field), None)
+                out = self._concat(out, ev(arg) if arg is not None and not spec and conv in (None, "s") else {self.hole("format")})
+            return out
+        if isinstance(f, ast.Attribute) and f.attr == "join" and len(node.args) == 1 and not node.keywords:
+            seps = ev(f.value)
+            elts = self.elements(node.args[0], fn)
+            if elts is not None and all(len(s) <= 1 and all(isinstance(p, str) for p in s) for s in seps):
+                out = set()
+                for s in seps:
+                    cur = {()}
+                    for i, e in enumerate(elts):
+                        if i:
+                            cur = self._concat(cur, {s})
+                        cur = self._concat(cur, ev(e))
+                    out |= cur
+                return self._cap(out)
+            return {self.hole("join")}
+        scope = self.tree.func_of(node) or fn
+        q = self.tree.callee(node, scope) if hasattr(node, "_module") else None
+        g = self.tree.funcs.get(q) if q else None
+        if g is not None and self.is_private(g) and g.qual not in stack and len(stack) < 4 and isinstance(g.node, ast.FunctionDef) \
+                and not any(isinstance(n, (ast.Yield, ast.YieldFrom)) for n in walk_function(g.node, nested=False)):
+            bound = self.bind(g, node)
+            rets = [n for n in walk_function(g.node, nested=False) if isinstance(n, ast.Return)]
+            if bound is not None and rets and all(r.value is not None for r in rets):
+                sub_env = {p: ev(a) for p, a in bound.items()}
+                out = set()
+                for r in rets:
+                    out |= self.read(r.value, g, sub_env, depth + 1, (*stack, g.qual))
+                return self._cap(out)
+        if q:
+            return {self.hole("call:" + q.split("::")[-1].split(".")[-1])}
+        return {self.hole("call:" + (f.attr if isinstance(f, ast.Attribute) else f.id if isinstance(f, ast.Name) else "?"))}
+
+    def _name(self, node: ast.Name, fn: FuncInfo, env, depth: int, stack: tuple) -> set:
+        defs = self.rd(fn).reaching(node)
+        if not defs:
+            top = self._toplevel(node, fn) if hasattr(node, "_module") else None
+            if top is not None:
+                return self.read(top, fn, None, depth + 1, stack)
+            return {self.hole("global:" + node.id)}
+        out: set = set()
+        for d in sorted(defs, key=lambda d: (d.lineno, d.name, d.kind, d.index or 0)):
+            out |= self._def(d, fn, env, depth, stack)
+        return self._cap(out)
+
+    def _def(self, d, fn: FuncInfo, env, depth: int, stack: tuple) -> set:
+        key = ("def", id(d.node), d.name, d.index)
+        if key in stack or depth > self.MAX_DEPTH:
+            return {self.hole("cyclic")}
+        stack2 = (*stack, key)
+        ev = lambda n: self.read(n, fn, env, depth + 1, stack2)  # noqa: E731
+        if d.kind == "param":
+            owner = self.tree.func_of(d.node) or fn
+            if env is not None and d.name in env and owner.qual == fn.qual:
+                return env[d.name]
+            if d.name in {"self", "cls"}:
+                return {self.hole("param")}
+            if self.is_private(owner) and len([s for s in stack if isinstance(s, tuple) and s and s[0] == "param"]) < 3:
+                sites = self.callers(owner)
+                out: set = set()
+                for caller, call in sites:
+                    bound = self.bind(owner, call)
+                    if bound is None or d.name not in bound:
+                        return {self.hole("param")}
+                    arg = bound[d.name]
+                    passed = any(arg is x for x in [*call.args, *[k.value for k in call.keywords]])
+                    out |= self.read(arg, caller if passed else owner, None, depth + 1, (*stack2, ("param", owner.qual, d.name)))
+                if sites and out:
+                    return self._cap(out)
+            return {self.hole("param")}
+        if d.kind == "assign" and d.value is not None:
+            if d.index is None:
+                return ev(d.value)
+            elts = self.elements(d.value, fn)
+            if elts is not None and d.index < len(elts):
+                return ev(elts[d.index])
+            return {self.hole("unpacked")}
+        if d.kind == "aug" and isinstance(d.node, ast.AugAssign) and isinstance(d.node.op, ast.Add) and isinstance(d.node.target, ast.Name):
+            old_defs = self.rd(fn).reaching(d.node.target)
+            old: set = set()
+            for o in old_defs:
+                old |= self._def(o, fn, env, depth + 1, stack2)
+            if not old:
+                return {self.hole("aug")}
+            return self._concat(self._cap(old), ev(d.node.value))
+        if d.kind in {"for", "comp"} and d.value is not None:
+            elts = self.elements(d.value, fn)
+            if elts is None:
+                return {self.hole("each:" + _head_name(d.value))}
+            out = set()
+            for e in elts:
+                if d.index is None:
+                    out |= ev(e)
+                else:
+                    sub = self.elements(e, fn)
+                    out |= ev(sub[d.index]) if sub is not None and d.index < len(sub) else {self.hole("unpacked")}
+            return self._cap(out) if out else {self.hole("empty-sequence")}
+        return {self.hole(d.kind)}
+
+
+def _head_name(node: ast.AST) -> str:
+    """A stable label of where a run-time piece comes from: the called function / attribute / global, never a local."""
+    while isinstance(node, (ast.Subscript, ast.Starred)):
+        node = node.value
+    if isinstance(node, ast.Call):
+        f = node.func
+        return f.attr if isinstance(f, ast.Attribute) else f.id if isinstance(f, ast.Name) else "call"
+    if isinstance(node, ast.Attribute):
+        return node.attr
+    if isinstance(node, ast.Name):
+        return "name"
+    return type(node).__name__
+
+
+def _name_reader(tree: Tree) -> "NameReader":
+    r = tree.__dict__.get("_name_reader")
+    if r is None:
+        r = tree.__dict__["_name_reader"] = NameReader(tree)
+    return r
+
+
+def _own_calls(fn: FuncInfo) -> Iterator[ast.Call]:
+    """Calls of the function itself, including those inside its lambdas and comprehensions (not nested defs)."""
+    todo = list(ast.iter_child_nodes(fn.node))
+    while todo:
+        node = todo.pop(0)
+        if isinstance(node, (ast.FunctionDef, ast.AsyncFunctionDef, ast.ClassDef)):
+            continue
+        if isinstance(node, ast.Call):
+            yield node
+        todo[0:0] = list(ast.iter_child_nodes(node))
+
+
+def _symbol_ctor(tree: Tree, fn: FuncInfo, call: ast.Call, reader: "NameReader") -> tuple[str, list[ast.keyword]] | None:
+    """(constructor, keywords bound in advance) if ``call`` constructs a symbol: ``sp.Symbol(...)`` itself, a local
+    alias of it (``make = sp.Symbol``) or a ``functools.partial(sp.Symbol, real=True)`` bound to a local."""
+    scope = tree.func_of(call) or fn
+    callee = tree.callee(call, scope)
+    if callee in SYMBOL_CTORS:
+        return callee, []
+    f = call.func
+    if isinstance(f, ast.Name):
+        defs = reader.rd(fn).reaching(f)
+        if len(defs) == 1:
+            d = next(iter(defs))
+            v = d.value if d.kind == "assign" and d.index is None else None
+            if isinstance(v, (ast.Name, ast.Attribute)) and tree.resolve(v._module, v, scope) in SYMBOL_CTORS:  # type: ignore[attr-defined]
+                return tree.resolve(v._module, v, scope), []  # type: ignore[attr-defined]
+            if isinstance(v, ast.Call) and tree.callee(v, scope) in {"functools.partial", "partial"} and v.args and len(v.args) == 1:
+                inner = tree.resolve(v._module, v.args[0], scope)  # type: ignore[attr-defined]
+                if inner in SYMBOL_CTORS:
+                    return inner, list(v.keywords)
+    return None
+
+
+_NOT_ASSUMPTIONS = {"shape", "cls", "seq", "name", "names", "label", "commutative_placeholder"}
+
+
+def _read_assumptions(tree: Tree, fn: FuncInfo, keywords: list[ast.keyword], reader: "NameReader") -> tuple[dict[str, str], list[str]]:
+    """({assumption: value text}, [what could not be read]): ``**kw`` is followed to a dict display / ``dict(...)``
+    (directly, through a local bound once, or a module-level constant)."""
+    out: dict[str, str] = {}
+    unread: list[str] = []
+
+    def value_text(v: ast.AST) -> str:
+        if isinstance(v, ast.Name):
+            defs = reader.rd(fn).reaching(v)
+            if len(defs) == 1:
+                d = next(iter(defs))
+                if d.kind == "assign" and d.index is None and isinstance(d.value, ast.Constant):
+                    return unparse(d.value)
+            if defs or v.id not in {"True", "False", "None"}:
+                unread.append(f"assumption value `{unparse(v)[:30]}` is not a constant")
+        elif not isinstance(v, ast.Constant):
+            unread.append(f"assumption value `{unparse(v)[:30]}` is not a constant")
+        return unparse(v)
+
+    def mapping(v: ast.AST, depth: int = 0) -> list[tuple[str, ast.AST]] | None:
+        if depth > 4:
+            return None
+        if isinstance(v, ast.Dict):
+            if all(isinstance(k, ast.Constant) and isinstance(k.value, str) for k in v.keys):
+                return [(k.value, x) for k, x in zip(v.keys, v.values)]  # type: ignore[union-attr]
+            return None
+        if isinstance(v, ast.Call) and isinstance(v.func, ast.Name) and v.func.id == "dict" and not v.args and all(k.arg for k in v.keywords):
+            return [(k.arg, k.value) for k in v.keywords]  # type: ignore[misc]
+        if isinstance(v, ast.Name):
+            defs = reader.rd(fn).reaching(v)
+            if len(defs) == 1:
+                d = next(iter(defs))
+                if d.kind == "assign" and d.index is None and d.value is not None:
+                    return mapping(d.value, depth + 1)
+                return None
+            if defs:
+                return None
+        if isinstance(v, (ast.Name, ast.Attribute)) and hasattr(v, "_module"):
+            top = reader._toplevel(v, fn)
+            if top is not None:
+                return mapping(top, depth + 1)
+        return None
+
+    for k in keywords:
+        if k.arg is None:
+            items = mapping(k.value)
+            if items is None:
+                unread.append(f"`**{unparse(k.value)[:30]}` is not a mapping that is known statically")
+                continue
+            for name, v in items:
+                if name not in _NOT_ASSUMPTIONS:
+                    out[name] = value_text(v)
+        elif k.arg not in _NOT_ASSUMPTIONS:
+            out[k.arg] = value_text(k.value)
+    return out, unread
+
+
+def _split_names(alt: tuple) -> list[tuple]:
+    """The names of one ``sp.symbols`` specification: split at commas / whitespace inside the literal parts."""
+    names: list[list] = [[]]
+    for p in alt:
+        if isinstance(p, str):
+            pieces = re.split(r"[,\s]+", p)
+            names[-1].append(pieces[0])
+            for piece in pieces[1:]:
+                names.append([piece])
+        else:
+            names[-1].append(p)
+    return [NameReader._norm(n) for n in names if NameReader._norm(n)]
+
+
 def symbol_sites(tree: Tree, module_prefixes: Iterable[str]) -> list[dict]:
-    """Every symbol construction (``sp.Symbol/symbols/IndexedBase/Dummy``) in the given
-    modules: function, kind, name skeleton (f-string placeholders -> ``{}``), assumptions."""
+    """Every symbol construction (``sp.Symbol/symbols/IndexedBase/Dummy``, also through a local alias or a
+    ``functools.partial``) in the given modules: function, kind, name skeleton, assumptions.
+
+    The name is READ with ``NameReader`` (f-string / concatenation / ``format`` / ``join`` / ``%``, temporaries,
+    conditional names, loops over literal tables, parameters of private helpers followed to their callers); one
+    entry per alternative name.  ``skeleton`` is None if the whole name is only known at run time; ``holes`` lists
+    where the run-time pieces of the name come from (``call:<function>``, ``param``, ...); ``unread`` lists what
+    could not be read of the assumptions (``star_kwargs``: an unresolved ``**kw``)."""
     from .terms import expand_symbols
 
+    reader = _name_reader(tree)
     out = []
     prefixes = tuple(module_prefixes)
     for q, fn in sorted(tree.funcs.items()):
         if not q.startswith(prefixes):
             continue
-        for call, callee in tree.calls_in(fn, nested=False):
-            if callee not in SYMBOL_CTORS or not call.args:
+        for call in _own_calls(fn):
+            ctor = _symbol_ctor(tree, fn, call, reader)
+            if ctor is None:
                 continue
-            name_node = call.args[0]
-            skels = [_skeleton(name_node)]
-            if skels[0] is None and isinstance(name_node, ast.Name):
-                # name built in a local variable first (possibly on several branches)
-                rd = RD(fn.node)
-                defs = rd.reaching(name_node)
-                found = [_skeleton(d.value) for d in defs if d.value is not None]
-                if found and all(f is not None for f in found) and len(found) == len(defs):
-                    skels = sorted(set(found))
-            assumptions = {k.arg: unparse(k.value) for k in call.keywords if k.arg and k.arg not in {"shape", "cls", "seq"}}
-            star = any(k.arg is None for k in call.keywords)
+            callee, pre_keywords = ctor
+            name_node = call.args[0] if call.args and not isinstance(call.args[0], ast.Starred) else next((k.value for k in call.keywords if k.arg in {"name", "names", "label"}), None)
+            if name_node is None:
+                continue
             kind = SYMBOL_CTORS[callee]
-            names = []
-            for skel in skels:
-                if kind == "symbols" and skel is not None and "{}" not in skel:
-                    names.extend(expand_symbols(skel))
-                else:
-                    names.append(skel)
-            for nm in names:
+            alts = sorted(reader.read(name_node, fn), key=repr)
+            assumptions, unread = _read_assumptions(tree, fn, [*pre_keywords, *call.keywords], reader)
+            star = any(u.startswith("`**") for u in unread)
+            entries: list[tuple[str | None, list[str]]] = []
+            for alt in alts:
+                for name in (_split_names(alt) if kind == "symbols" else [alt]):
+                    skel = NameReader.text(name)
+                    if kind == "symbols" and skel is not None and "{}" not in skel and ":" in skel:
+                        entries += [(n, []) for n in expand_symbols(skel)]
+                    else:
+                        entries.append((skel, NameReader.provenances(name)))
+            seen = set()
+            for skel, holes in entries:
+                if (skel, tuple(holes)) in seen:
+                    continue
+                seen.add((skel, tuple(holes)))
                 out.append({
                     "fn": q,
                     "node": call,
                     "kind": "Symbol" if kind == "symbols" else kind,
-                    "skeleton": nm,
+                    "skeleton": skel,
+                    "holes": holes,
                     "assumptions": assumptions,
                     "star_kwargs": star,
+                    "unread": unread,
                 })
     return out
+
+
+def symbol_ctor_escapes(tree: Tree, module_prefixes: Iterable[str]) -> list[tuple[FuncInfo, ast.AST]]:
+    """References to a symbol constructor that are neither called on the spot nor harmless (annotations,
+    ``isinstance`` / ``issubclass`` / ``.atoms`` / ``.has`` / ``.find`` arguments, type comparisons, a local alias or
+    ``functools.partial`` that ``symbol_sites`` follows): symbols constructed through such a value are not seen."""
+    reader = _name_reader(tree)
+    prefixes = tuple(module_prefixes)
+    out = []
+    for q, fn in sorted(tree.funcs.items()):
+        if not q.startswith(prefixes):
+            continue
+        for node in walk_function(fn.node, nested=False):
+            if not isinstance(node, (ast.Name, ast.Attribute)) or not isinstance(getattr(node, "ctx", None), ast.Load):
+                continue
+            par = getattr(node, "_parent", None)
+            if isinstance(par, ast.Attribute):
+                continue  # a longer path: judged at its top
+            if tree.resolve(node._module, node, fn) not in SYMBOL_CTORS:  # type: ignore[attr-defined]
+                continue
+            if isinstance(par, ast.Call) and par.func is node:
+                continue
+            benign = False
+            child = node
+            for a in [par, *([] if par is None else list(_ancestors(par)))]:
+                if a is None or a is fn.node:
+                    if a is fn.node and (child is fn.node.returns or child is fn.node.args or child in fn.node.decorator_list):
+                        benign = True
+                    break
+                if isinstance(a, ast.arg) or (isinstance(a, ast.AnnAssign) and child is a.annotation) or isinstance(a, ast.Compare):
+                    benign = True
+                    break
+                if isinstance(a, ast.Call) and child is not a.func:
+                    f = a.func
+                    fname = f.id if isinstance(f, ast.Name) else f.attr if isinstance(f, ast.Attribute) else ""
+                    if fname in {"isinstance", "issubclass", "cast", "atoms", "has", "find", "TypeVar"}:
+                        benign = True
+                    elif fname == "partial" and a.args and a.args[0] is child:
+                        # followed by symbol_sites when it is bound to a local that is called
+                        p2 = getattr(a, "_parent", None)
+                        benign = isinstance(p2, ast.Assign) and len(p2.targets) == 1 and isinstance(p2.targets[0], ast.Name)
+                    break
+                if isinstance(a, ast.Assign) and child is a.value and len(a.targets) == 1 and isinstance(a.targets[0], ast.Name):
+                    benign = True  # local alias: followed by symbol_sites
+                    break
+                if isinstance(a, ast.stmt):
+                    break
+                child = a
+            if not benign:
+                out.append((fn, node))
+    return out
+
+
+def _ancestors(node: ast.AST) -> Iterator[ast.AST]:
+    p = getattr(node, "_parent", None)
+    while p is not None:
+        yield p
+        p = getattr(p, "_parent", None)
 
 
 # --------------------------------------------------------------------------- R-PREC
@@ -422,6 +1121,97 @@ def _template(js: ast.JoinedStr) -> tuple[str, list[ast.AST]]:
             parts.append(f"\x00{len(holes)}\x01")
             holes.append(v.value)
     return "".join(parts), holes
+
+
+def code_templates(fn_node: ast.AST) -> Iterator[tuple[str, list[ast.AST]]]:
+    """Every string template of a function, however it is spelt, as (text with ``\\x00<i>\\x01`` marks, placeholders):
+    f-strings, ``"..{}..".format(a, b)`` / ``"..{x}..".format(x=a)`` on a literal, ``"..%s.." % (a, b)`` on a literal, and
+    ``+`` concatenations of string literals / f-strings with other values (``"-" + x + "**2"``)."""
+    import string
+
+    consumed: set[int] = set()
+
+    def flatten_concat(node: ast.AST, parts: list) -> None:
+        if isinstance(node, ast.BinOp) and isinstance(node.op, ast.Add):
+            flatten_concat(node.left, parts)
+            flatten_concat(node.right, parts)
+        elif isinstance(node, ast.Constant) and isinstance(node.value, str):
+            parts.append(("text", node.value))
+        elif isinstance(node, ast.JoinedStr):
+            consumed.add(id(node))
+            for v in node.values:
+                parts.append(("text", str(v.value)) if isinstance(v, ast.Constant) else ("hole", v.value))
+        else:
+            parts.append(("hole", node))
+
+    def assemble(parts: list) -> tuple[str, list[ast.AST]]:
+        text, holes = [], []
+        for kind, x in parts:
+            if kind == "text":
+                text.append(x)
+            else:
+                text.append(f"\x00{len(holes)}\x01")
+                holes.append(x)
+        return "".join(text), holes
+
+    nodes = list(walk_function(fn_node, nested=False))
+    for node in nodes:  # outermost concatenations first (walk order is top-down)
+        if isinstance(node, ast.BinOp) and isinstance(node.op, ast.Add) and id(node) not in consumed:
+            parts: list = []
+            flatten_concat(node, parts)
+            for sub in ast.walk(node):
+                if isinstance(sub, ast.BinOp) and isinstance(sub.op, ast.Add):
+                    consumed.add(id(sub))
+            if any(k == "text" for k, _ in parts) and any(k == "hole" for k, _ in parts):
+                yield assemble(parts)
+    for node in nodes:
+        if isinstance(node, ast.JoinedStr) and id(node) not in consumed:
+            yield _template(node)
+        elif isinstance(node, ast.Call) and isinstance(node.func, ast.Attribute) and node.func.attr == "format" and isinstance(node.func.value, ast.Constant) and isinstance(node.func.value.value, str):
+            if any(isinstance(a, ast.Starred) for a in node.args) or any(k.arg is None for k in node.keywords):
+                continue
+            parts, auto = [], 0
+            try:
+                parsed = list(string.Formatter().parse(node.func.value.value))
+            except ValueError:
+                continue
+            ok = True
+            for literal, field, _spec, _conv in parsed:
+                if literal:
+                    parts.append(("text", literal))
+                if field is None:
+                    continue
+                head = field.split(".")[0].split("[")[0]
+                if head == "":
+                    arg = node.args[auto] if auto < len(node.args) else None
+                    auto += 1
+                elif head.isdigit():
+                    arg = node.args[int(head)] if int(head) < len(node.args) else None
+                else:
+                    arg = next((k.value for k in node.keywords if k.arg == head), None)
+                if arg is None or head != field:
+                    ok = False
+                    break
+                parts.append(("hole", arg))
+            if ok:
+                yield assemble(parts)
+        elif isinstance(node, ast.BinOp) and isinstance(node.op, ast.Mod) and isinstance(node.left, ast.Constant) and isinstance(node.left.value, str):
+            operands = list(node.right.elts) if isinstance(node.right, ast.Tuple) else [node.right]
+            pieces = re.split(r"(%%|%[-#0 +]*\d*(?:\.\d+)?[sdrfgi])", node.left.value)
+            parts, k = [], 0
+            for piece in pieces:
+                if piece == "%%":
+                    parts.append(("text", "%"))
+                elif re.fullmatch(r"%[-#0 +]*\d*(?:\.\d+)?[sdrfgi]", piece or ""):
+                    if k >= len(operands) or isinstance(operands[k], ast.Starred):
+                        parts = []
+                        break
+                    parts.append(("hole", operands[k]))
+                    k += 1
+                elif piece:
+                    parts.append(("text", piece))
+            if parts and k == len(operands):
+                yield assemble(parts)
 
 
 def _top_kind(node: ast.AST) -> str:
@@ -478,74 +1268,229 @@ def field_kinds(tree: Tree, cls_qual: str) -> dict[str, str] | None:
     return kinds
 
 
-def precedence_hazards(tree: Tree, fn: FuncInfo) -> list[tuple[ast.AST, str]]:
+def interpret_printer(tree: Tree, fn: FuncInfo, holes: list[ast.AST] = ()) -> dict | None:  # type: ignore[assignment]
+    """Interpret a printer method (``_numpycode(self, printer)``) on a model instance whose fields print as the marks
+    ``<NUL>field<SOH>``, whose unfolding (``self.evaluate()`` / ``self.doit()``) prints as ``<NUL>unfolded<SOH>`` and anything
+    else the printer is asked to print as ``<NUL>expr<n><SOH>``.  Returns {"result": what the method returns, "holes":
+    {id(expression in ``holes``): the code strings it held}} - loops, helpers, dicts of printed strings, join / format /
+    concatenation are all ordinary Python to the interpreter - or None if the method leaves the interpreted subset (the
+    caller then knows nothing more than before)."""
+    from .exprmodel import expression_classes
+
+    if fn.cls is None or len(fn.params) < 2:
+        return None
+    ec = expression_classes(tree).get(fn.cls.qual)
+    try:
+        ex = object_exec(tree)
+        names = [f.name for f in ec.fields] if ec is not None else ["arg0", "arg1", "arg2"]
+        sympy_names = [f.name for f in ec.sympy_fields] if ec is not None else names
+        values = {n: MObj(f"value of {n}", kinds={"expr", "sympy.Expr", "sympy.Basic"}, open=False) for n in names}
+        counter = [0]
+        unfolded = MObj("self.evaluate()", kinds={"expr"}, open=False)
+        unfolded.attrs["doit"] = lambda a, k: unfolded
+
+        def mark(obj) -> str:
+            if obj is unfolded:
+                return "\x00unfolded\x01"
+            for n, v in values.items():
+                if obj is v:
+                    return f"\x00{n}\x01"
+            if isinstance(obj, (int, float)) and not isinstance(obj, bool):
+                return repr(obj)
+            counter[0] += 1
+            return f"\x00expr{counter[0]}\x01"
+
+        inst = ex.Instance("self", fn.cls, {**(values if ec is not None else {}), "args": tuple(values[n] for n in sympy_names), "_args": tuple(values[n] for n in sympy_names),
+                                            "evaluate": lambda a, k: unfolded, "doit": lambda a, k: unfolded}, kinds={"expr", fn.cls.qual, fn.cls.name}, open=False)
+        imports = MObj("printer.module_imports", {"__getitem__": lambda a, k: set()}, open=False)
+        printer = MObj("printer", {"_print": lambda a, k: mark(a[0]), "doprint": lambda a, k: mark(a[0]), "parenthesize": lambda a, k: "(" + mark(a[0]) + ")",
+                                   "module_imports": imports, "_module": "numpy", "_settings": {}}, open=True)
+        ex.watch = {id(h) for h in holes}
+        result = ex.run(fn, [inst, printer])
+    except (ModelError, ModelRaise, AnalysisError):
+        return None
+    except Exception:  # noqa: BLE001 - a gap of the interpreter: nothing learnt
+        return None
+    return {"result": result, "holes": {k: [x for x in v if isinstance(x, str)] for k, v in ex.watched.items() if v and all(isinstance(x, str) for x in v)}}
+
+
+def printed_hole_values(tree: Tree, fn: FuncInfo, holes: list[ast.AST]) -> dict[int, list[str]]:
+    """The code strings that the placeholder expressions ``holes`` of a printer method hold when it is interpreted on a
+    model instance (see ``interpret_printer``); {} if it cannot be interpreted."""
+    out = interpret_printer(tree, fn, holes)
+    return out["holes"] if out is not None else {}
+
+
+def code_text_kind(text: str, mark_kind) -> str:
+    """'atomic' / 'product' / 'arbitrary' of a piece of generated code in which printed sub-expressions are marks
+    ``<NUL>name<SOH>`` (``mark_kind(name)`` tells what such a mark may print): decided by the operators at the top
+    level of the text (outside every bracket)."""
+    t = text.strip()
+    m = re.fullmatch(r"\x00([^\x00\x01]+)\x01", t)
+    if m:
+        return mark_kind(m.group(1))
+    if re.fullmatch(r"[A-Za-z_][\w.]*\(.*\)", t, re.S) and _enclosed_in_parentheses(t[t.index("("):]):
+        return "atomic"
+    if _enclosed_in_parentheses(t) or (t[:1] == "[" and t[-1:] == "]"):
+        return "atomic"
+    depth, worst, i = 0, "atomic", 0
+    order = {"atomic": 0, "product": 1, "arbitrary": 2}
+    while i < len(t):
+        ch = t[i]
+        if ch in "([{":
+            depth += 1
+        elif ch in ")]}":
+            depth -= 1
+        elif depth == 0:
+            if ch == "\x00":
+                j = t.index("\x01", i)
+                k = mark_kind(t[i + 1: j])
+                if len(t) > j - i + 1:  # a mark inside a longer text: its own top-level operators count
+                    worst = max(worst, k, key=order.__getitem__)
+                i = j
+            elif ch in "+-" and not (i > 0 and t[i - 1] in "eE" and t[:i - 1][-1:].isdigit()):
+                return "arbitrary"
+            elif ch in "*/@%":
+                worst = max(worst, "product", key=order.__getitem__)
+            elif ch in "<>=!&|^~" or t[i: i + 4] in {" if ", " or "} or t[i: i + 5] == " and ":
+                return "arbitrary"
+        i += 1
+    return worst
+
+
+def precedence_hazards(tree: Tree, fn: FuncInfo, undecided: list | None = None, fields_of_holes: dict | None = None) -> list[tuple[ast.AST, str]]:
     """Placeholders of generated-code templates that sit next to an operator of higher
-    precedence than what the printed sub-expression may have at its top level."""
+    precedence than what the printed sub-expression may have at its top level.
+
+    Three-valued: a placeholder is a hazard only if the rule KNOWS what it prints - the printer's text of an
+    expression that may be a sum / a product (``printer._print(x)``, an element of ``map(printer._print, self.args)`` /
+    of a comprehension / of a helper that returns one, a template string assembled here).  A placeholder whose
+    value the rule cannot interpret (a parameter, the result of a call that cannot be inlined ...) is appended to
+    ``undecided`` as (hole, reason) - the caller fails closed on it - and is never reported as a hazard."""
     out: list[tuple[ast.AST, str]] = []
     printer = fn.params[1] if len(fn.params) > 1 else "printer"
     rd = RD(fn.node)
     kinds = field_kinds(tree, fn.cls.qual) if fn.cls is not None else None
     fields_by_local: dict[str, str] = {}
+    unpack_nodes: set[int] = set()
+    ec = None
     if fn.cls is not None:
         from .exprmodel import expression_classes
 
         ec = expression_classes(tree).get(fn.cls.qual)
-        if ec is not None:
-            for st, elts, _ in self_args_unpackings(fn):
+        for st, elts, through in self_args_unpackings(fn, tree):
+            if through:
+                unpack_nodes.add(id(st))  # every target holds the mapped (printed) form of one argument
+            if ec is not None:
                 for e, f in zip(elts, [x.name for x in ec.sympy_fields]):
                     if isinstance(e, ast.Name):
                         fields_by_local[e.id] = f
+    inl = _value_inliner(fn, tree)
+    order = {"atomic": 0, "product": 1, "arbitrary": 2, "unknown": 3}
+
+    def is_printer_call(f: ast.AST) -> bool:
+        return isinstance(f, ast.Attribute) and isinstance(f.value, ast.Name) and f.value.id == printer
+
+    def element_kind(seq: ast.AST, depth: int) -> str:
+        """Kind of the printed text held by ONE element of a sequence of code strings."""
+        if depth > 8:
+            return "unknown"
+        if args_image(seq) is True:
+            return "arbitrary"  # map(printer._print, self.args) / [printer._print(a) for a in self.args]
+        if isinstance(seq, (ast.List, ast.Tuple)) and seq.elts and not any(isinstance(e, ast.Starred) for e in seq.elts):
+            return max((value_kind(e, depth + 1) for e in seq.elts), key=order.__getitem__)
+        if isinstance(seq, (ast.ListComp, ast.GeneratorExp)) and len(seq.generators) == 1:
+            return value_kind(seq.elt, depth + 1)
+        if isinstance(seq, ast.Call) and isinstance(seq.func, ast.Name) and seq.func.id in {"list", "tuple", "sorted", "reversed", "iter"} and len(seq.args) == 1:
+            return element_kind(seq.args[0], depth + 1)
+        if isinstance(seq, ast.Call) and isinstance(seq.func, ast.Name) and seq.func.id == "map" and len(seq.args) == 2 and is_printer_call(seq.args[0]):
+            return "arbitrary"
+        if isinstance(seq, ast.Name):
+            defs = rd.reaching(seq) if isinstance(seq.ctx, ast.Load) else set()
+            kinds_ = [element_kind(d.value, depth + 1) if d.kind == "assign" and d.value is not None and d.index is None else "unknown" for d in defs]
+            return max(kinds_, key=order.__getitem__) if kinds_ else "unknown"
+        return "unknown"
 
     def value_kind(node: ast.AST, depth: int = 0) -> str:
-        """Kind of the *printed text* this expression denotes."""
+        """Kind of the *printed text* this expression denotes ('unknown': the rule cannot tell)."""
         if depth > 8:
-            return "arbitrary"
+            return "unknown"
         if isinstance(node, ast.Call):
             f = node.func
-            if isinstance(f, ast.Attribute) and isinstance(f.value, ast.Name) and f.value.id == printer:
+            if is_printer_call(f):
                 if f.attr == "parenthesize":
                     return "atomic"
-                if f.attr.startswith("_print") and node.args:
+                if (f.attr.startswith("_print") or f.attr == "doprint") and node.args:
                     arg = node.args[0]
                     # self.<field> of a private class: what do the constructor sites pass?
                     if isinstance(arg, ast.Attribute) and isinstance(arg.value, ast.Name) and arg.value.id == "self" and kinds is not None:
                         return kinds.get(arg.attr, "arbitrary")
+                    if isinstance(arg, ast.Name) and arg.id in fields_by_local and kinds is not None:
+                        defs = rd.reaching(arg)
+                        if defs and all(isinstance(d.node, ast.Assign) and any(d.node is st for st, _e, _t in self_args_unpackings(fn, tree)) for d in defs):
+                            return kinds.get(fields_by_local[arg.id], "arbitrary")
                     return "arbitrary"
-            return "arbitrary"
-        if isinstance(node, ast.JoinedStr):
-            text, _ = _template(node)
-            if re.fullmatch(r"[A-Za-z_][\w.]*\(.*\)", text.strip(), re.S):
+            if isinstance(f, ast.Attribute) and f.attr in {"strip", "lstrip", "rstrip"} and not node.args:
+                return value_kind(f.value, depth + 1)
+            if isinstance(f, ast.Name) and f.id == "str" and len(node.args) == 1 and isinstance(node.args[0], ast.Constant):
                 return "atomic"
+            return "unknown"
+        if isinstance(node, ast.JoinedStr):
+            text, holes = _template(node)
+            stripped = text.strip()
+            if re.fullmatch(r"[A-Za-z_][\w.]*\(.*\)", stripped, re.S) or _enclosed_in_parentheses(stripped):
+                return "atomic"
+            if len(holes) == 1 and stripped == "\x000\x01":
+                return value_kind(holes[0], depth + 1)
             return "arbitrary"
         if isinstance(node, ast.Constant):
             return "atomic"
+        if isinstance(node, ast.IfExp):
+            a, b = value_kind(node.body, depth + 1), value_kind(node.orelse, depth + 1)
+            return a if order[a] >= order[b] else b
         if isinstance(node, ast.Name):
-            if node.id in fields_by_local and kinds is not None:
-                # a, b = map(printer._print, self.args)
-                defs = rd.reaching(node)
-                if defs and all(d.value is not None and "map(" in unparse(d.value) for d in defs):
-                    return kinds.get(fields_by_local[node.id], "arbitrary")
-            worst = "atomic"
-            order = {"atomic": 0, "product": 1, "arbitrary": 2}
-            defs = rd.reaching(node)
+            defs = rd.reaching(node) if isinstance(node.ctx, ast.Load) else set()
             if not defs:
-                return "arbitrary"
+                return "unknown"
+            worst = "atomic"
             for d in defs:
-                if d.value is None or d.index is not None and "map(" not in unparse(d.value):
-                    return "arbitrary"
-                k = "arbitrary" if "map(" in unparse(d.value) else value_kind(d.value, depth + 1)
+                if isinstance(d.node, ast.Assign) and id(d.node) in unpack_nodes:
+                    # a, b = map(printer._print, self.args) / [printer._print(x) for x in self.args] / a helper that returns one
+                    k = kinds.get(fields_by_local[node.id], "arbitrary") if node.id in fields_by_local and kinds is not None and d.index is not None else "arbitrary"
+                elif d.kind in {"for", "comp"} and d.value is not None and d.index is None:
+                    k = element_kind(d.value, depth + 1)  # a loop / comprehension variable: one element of the iterable
+                elif d.value is None or d.index is not None or d.kind not in {"assign"}:
+                    k = "unknown"
+                else:
+                    k = value_kind(d.value, depth + 1)
+                    if k == "unknown" and inl and isinstance(d.value, ast.Call):
+                        try:
+                            inlined = inl.expr(d.value)
+                        except Exception:  # noqa: BLE001
+                            inlined = d.value
+                        if not isinstance(inlined, ast.Call) or unparse(inlined) != unparse(d.value):
+                            k = value_kind(inlined, depth + 1)
                 if order[k] > order[worst]:
                     worst = k
             return worst
+        return "unknown"
+
+    templates = list(code_templates(fn.node))
+    traced: dict | None = None
+    printed_field: dict[int, str] = {}
+    field_names = {x.name for x in ec.fields} if fn.cls is not None and ec is not None else set()
+
+    def mark_kind(name: str) -> str:
+        if name in field_names and kinds is not None:
+            return kinds.get(name, "arbitrary")
         return "arbitrary"
 
-    for node in walk_function(fn.node, nested=False):
-        if not isinstance(node, ast.JoinedStr):
-            continue
-        text, holes = _template(node)
+    for text, holes in templates:
         # only templates that are generated code: heuristically those that reach a return
         for i, hole in enumerate(holes):
             mark = f"\x00{i}\x01"
+            if mark not in text:
+                continue
             pos = text.index(mark)
             before = text[:pos].rstrip()
             after = text[pos + len(mark):].lstrip()
@@ -564,11 +1509,41 @@ def precedence_hazards(tree: Tree, fn: FuncInfo) -> list[tuple[ast.AST, str]]:
             if not hazards:
                 continue
             kind = value_kind(hole)
-            order = {"atomic": 0, "product": 1, "arbitrary": 2}
+            if kind == "unknown":
+                # what the placeholder holds when the method is interpreted on a model instance (marks for printed fields)
+                if traced is None:
+                    traced = printed_hole_values(tree, fn, [h for _t, hs in templates for h in hs])
+                texts = traced.get(id(hole))
+                if texts:
+                    kind = max((code_text_kind(x, mark_kind) for x in texts), key=order.__getitem__)
+                    marks = [re.fullmatch("\x00([^\x00\x01]+)\x01", x.strip()) for x in texts]
+                    if all(marks) and len({m.group(1) for m in marks}) == 1 and marks[0].group(1) in field_names:
+                        printed_field[id(hole)] = marks[0].group(1)
+            if kind == "unknown":
+                if undecided is not None:
+                    undecided.append((hole, f"placeholder {{{unparse(hole)}}} next to {hazards[0][0].replace(' before', '').replace(' after', '')}: the rule cannot tell what text it holds"))
+                continue
             for what, need in hazards:
                 if order[kind] > order[need]:
                     out.append((hole, f"placeholder {{{unparse(hole)}}} has `{what}` in the template but the printed sub-expression may be {'a sum' if kind == 'arbitrary' else 'a product'} (not parenthesised)"))
+    if fields_of_holes is not None:
+        fields_of_holes.update(printed_field)  # id(placeholder) -> the field whose printed form it holds (where only the interpretation could tell)
     return out
+
+
+def _enclosed_in_parentheses(text: str) -> bool:
+    """``( ... )`` where the first parenthesis closes at the very end."""
+    if len(text) < 2 or text[0] != "(" or text[-1] != ")":
+        return False
+    depth = 0
+    for i, ch in enumerate(text):
+        if ch == "(":
+            depth += 1
+        elif ch == ")":
+            depth -= 1
+            if depth == 0 and i != len(text) - 1:
+                return False
+    return depth == 0
 
 
 # --------------------------------------------------------------------------- R-REBUILD
@@ -712,12 +1687,29 @@ def topology_mismatches(tree: Tree, module_prefixes: tuple[str, ...]) -> tuple[l
         if not q.startswith(module_prefixes) or fn.outer is not None:
             continue
         rd = RD(fn.node)
+        from .inline import Inliner
 
-        def ident(expr: ast.AST, scope_rd=rd):
-            """Identity of a topology-valued expression: text + reaching definitions of its names."""
+        alias_inliner = Inliner(fn.node, rd)
+
+        def ident(expr: ast.AST, scope_rd=rd, inl=alias_inliner):
+            """Identity of a topology-valued expression: its text with local aliases (`t = topology`) substituted +
+            the reaching definitions of the names that remain."""
+            try:
+                resolved = inl.expr(expr)
+            except Exception:  # noqa: BLE001
+                resolved = expr
             names = [n for n in ast.walk(expr) if isinstance(n, ast.Name) and isinstance(n.ctx, ast.Load)]
-            defs = frozenset(id(d.node) for n in names for d in scope_rd.reaching(n))
-            return (re.sub(r"\s+", "", unparse(expr)), defs)
+            defs = set()
+            for n in names:
+                for d in scope_rd.reaching(n):
+                    # a pure alias `t = <name or attribute path>` stands for what it names
+                    while d.kind == "assign" and d.index is None and isinstance(d.value, ast.Name) and len(scope_rd.reaching(d.value)) == 1:
+                        d = next(iter(scope_rd.reaching(d.value)))
+                    if not (d.kind == "assign" and d.index is None and isinstance(d.value, (ast.Name, ast.Attribute)) and unparse(d.value) in unparse(resolved)):
+                        defs.add(id(d.node))
+                    else:
+                        defs |= {id(x.node) for nn in ast.walk(d.value) if isinstance(nn, ast.Name) for x in scope_rd.reaching(nn)}
+            return (re.sub(r"\s+", "", unparse(resolved)), frozenset(defs))
 
         for node in walk_function(fn.node, nested=True):
             if not (isinstance(node, ast.Call) and node.args):
@@ -1469,9 +2461,14 @@ class ModelExec:
     # ------------------------------------------------------------------ expressions
     def binop(self, op, a, b, node):
         if isinstance(a, (MObj, MRef)) or isinstance(b, (MObj, MRef)):
-            hook = {ast.Add: "__add__", ast.Sub: "__sub__", ast.Mult: "__mul__", ast.Div: "__truediv__", ast.Pow: "__pow__", ast.BitOr: "__or__", ast.BitAnd: "__and__"}.get(type(op))
+            hook = {ast.Add: "__add__", ast.Sub: "__sub__", ast.Mult: "__mul__", ast.Div: "__truediv__", ast.Pow: "__pow__", ast.BitOr: "__or__", ast.BitAnd: "__and__",
+                    ast.MatMult: "__matmul__"}.get(type(op))
             if isinstance(a, MObj) and hook in a.attrs:
                 return a.attrs[hook]([b], {})
+            # the reflected method of the right operand (`2 * m`, `sp.I * m` on a model matrix), like Python
+            rhook = None if hook is None else "__r" + hook[2:]
+            if isinstance(b, MObj) and rhook in b.attrs:
+                return b.attrs[rhook]([a], {})
             raise ModelError(f"arithmetic on model objects (`{unparse(node)[:50]}`) has no model")
         try:
             if isinstance(op, ast.Add):
@@ -1571,6 +2568,8 @@ class ModelExec:
                 return not self.truth(v)
             if isinstance(node.op, ast.USub) and isinstance(v, int):
                 return -v
+            if isinstance(node.op, ast.USub) and isinstance(v, MObj) and "__neg__" in v.attrs:
+                return v.attrs["__neg__"]([], {})
             raise ModelError(f"unary operator in `{unparse(node)[:40]}`")
         if isinstance(node, ast.BinOp):
             return self.binop(node.op, self.ev(node.left, env, fn, depth), self.ev(node.right, env, fn, depth), node)
@@ -1686,3 +2685,745 @@ class ModelExec:
         if target in self.tree.funcs:
             return _FuncRef(self.tree.funcs[target])
         return MRef(target)
+
+
+# --------------------------------------------------------------------------- object world (classes of the package)
+#
+# ``object_exec(tree)`` = ``sa/pyexec.PyExec`` (ordinary Python over model worlds) plus what rules about the
+# decorator / pickle machinery need on top of it:
+#
+# * CLASSES OF THE PACKAGE ARE CALLABLE: ``Cls(a, b)`` runs ``__new__`` / ``__init__`` of the class (MRO over the
+#   package classes); a class without either that is a dataclass / attrs class / NamedTuple binds its annotated
+#   fields (defaults, ``default_factory`` / ``factory``, converters, ``__post_init__``); NamedTuple objects iterate and
+#   index, dataclass-like objects compare field-wise.  ``super().__new__(cls, ...)`` / ``object.__new__(cls)`` with
+#   an external base allocates the object (a ``str`` / ``int`` / ``tuple`` base keeps the value: ``str.__eq__``,
+#   ``str.__hash__``, ``str(obj)`` work on it).  ``==`` / ``!=`` on such objects run the class's ``__eq__`` / ``__ne__``.
+#   So a helper object (NamedTuple, attrs class, wrapper class) instead of a tuple is invisible to a rule.
+# * a class reference answers ``__name__`` / ``__qualname__`` / ``__module__`` / ``__mro__``, its methods (static
+#   methods and class methods through the class) and class-level constants; ``type(None)`` and the other builtin
+#   types are classes (``inspect.isclass``), with ``__module__ == "builtins"``.
+# * reflection and copying helpers of the standard library: ``inspect.isclass / isfunction / isroutine /
+#   signature``, ``dataclasses.astuple / asdict`` (DEEP: nested dataclass instances are destructured, exactly the
+#   defect R-SHALLOW is about), ``copy.deepcopy`` (a distinct copy), ``dataclasses.dataclass`` / ``functools.wraps`` /
+#   ``functools.cache`` used as calls (identity), ``types.MappingProxyType`` (a copy), ``warnings.warn`` (nothing),
+#   ``operator.attrgetter`` (records when ONE name is applied: the bare value, not a tuple).
+# * ``notes``: what the models of these helpers observed (("deep", callee, object), ("attrgetter-one-name", name)):
+#   positive evidence a rule can quote.
+#
+# Everything else that has no model stays a ModelError (the rule fails closed).
+
+_OBJECT_EXEC = None
+_DATACLASS_DECORATORS = {"dataclasses.dataclass", "attrs.define", "attrs.frozen", "attrs.mutable", "attr.s", "attr.attrs", "attr.define", "attr.frozen", "attr.mutable",
+                         "attr.dataclass", "attrs.dataclass"}
+_FIELD_CALLS = {"dataclasses.field", "attrs.field", "attr.ib", "attr.attrib", "attr.field"}
+_VALUE_BASES = {"str": str, "int": int, "float": float, "tuple": tuple, "frozenset": frozenset, "bytes": bytes}
+_NOTHING = object()
+
+
+def object_exec(tree: Tree, externals: dict | None = None, intercept=None, **kw):
+    """An interpreter for model worlds that contain objects of the package's own classes (see above)."""
+    global _OBJECT_EXEC  # noqa: PLW0603
+    if _OBJECT_EXEC is None:
+        _OBJECT_EXEC = _make_object_exec()
+    return _OBJECT_EXEC(tree, externals, intercept, **kw)
+
+
+def _make_object_exec():  # noqa: C901, PLR0915
+    from .loader import ClassInfo
+    from .pyexec import Instance, PyExec
+
+    class _ObjSuper(MObj):
+        """``super()`` inside a method: attribute lookup continues after ``after`` in the MRO of ``cls``."""
+
+        def __init__(self, inst, cls: ClassInfo, after: ClassInfo | None) -> None:
+            super().__init__(f"super() of {inst!r}")
+            self.inst, self.of, self.after = inst, cls, after
+
+    class ObjExec(PyExec):
+        def __init__(self, tree: Tree, externals: dict | None = None, intercept=None, **kw) -> None:
+            super().__init__(tree, None, intercept, **kw)
+            self.notes: list[tuple] = []
+            self.externals.update(self._reflection())
+            self.externals.update(externals or {})
+            self._body_scopes: dict[str, FuncInfo] = {}
+            self.watch: set[int] = set()  # ids of expression nodes whose runtime values a rule wants to see
+            self.watched: dict[int, list] = {}
+
+        def ev(self, node: ast.AST, env: dict, fn, depth: int):
+            v = super().ev(node, env, fn, depth)
+            if self.watch and id(node) in self.watch:
+                self.watched.setdefault(id(node), []).append(v)
+            return v
+
+        # ------------------------------------------------------------------ classes
+        def repo_class(self, v) -> ClassInfo | None:
+            if isinstance(v, MRef) and v.name in self.tree.classes:
+                return self.tree.classes[v.name]
+            return None
+
+        def _ext_bases(self, cls: ClassInfo) -> list[str]:
+            return [b for b in self.tree.external_bases(cls) if b not in {"object", "typing.Generic", "typing.Protocol"}]
+
+        def _class_kinds(self, cls: ClassInfo) -> set:
+            kinds = set()
+            for c in self.tree.mro(cls):
+                kinds |= {c.qual, c.name}
+            for b in self._ext_bases(cls):
+                kinds |= {b, b.split(".")[-1]}
+                kinds |= _BUILTIN_KINDS.get(_VALUE_BASES.get(b, object), set())
+            return kinds
+
+        def _body_scope(self, cls: ClassInfo) -> FuncInfo:
+            """A scope for expressions of the class body (names resolve in the module of the class)."""
+            if cls.qual not in self._body_scopes:
+                node = ast.FunctionDef(name="<class body>", args=ast.arguments(posonlyargs=[], args=[], kwonlyargs=[], kw_defaults=[], defaults=[]), body=[], decorator_list=[])
+                self._body_scopes[cls.qual] = FuncInfo(f"{cls.qual}.<class body>", node, cls.module, cls, None)
+            return self._body_scopes[cls.qual]
+
+        def _class_statement(self, cls: ClassInfo, name: str, after: ClassInfo | None = None):
+            """(defining class, statement) of the first class of the MRO that binds ``name`` in its body."""
+            mro = self.tree.mro(cls)
+            if after is not None and after in mro:
+                mro = mro[mro.index(after) + 1:]
+            for c in mro:
+                if name in c.methods:
+                    return c, c.methods[name]
+                for st in c.node.body:
+                    tgt = st.targets[0] if isinstance(st, ast.Assign) and len(st.targets) == 1 else st.target if isinstance(st, ast.AnnAssign) and st.value is not None else None
+                    if isinstance(tgt, ast.Name) and tgt.id == name:
+                        return c, st
+            return None, None
+
+        def _class_attr(self, inst, cls, name: str, after=None):
+            if cls is not None:
+                c, st = self._class_statement(cls, name, after)
+                if c is not None and not isinstance(st, FuncInfo):
+                    return self._class_constant(c, st)
+            return super()._class_attr(inst, cls, name, after)
+
+        def _class_constant(self, c: ClassInfo, st):
+            if isinstance(st.value, ast.Call) and self.tree.resolve(c.module, st.value.func) in _FIELD_CALLS:
+                raise ModelRaise("AttributeError", f"{c.name}.{unparse(st)[:30]}: a field without a class-level value")
+            return self.ev(st.value, {}, self._body_scope(c), 0)
+
+        def class_getattr(self, ref: MRef, cls: ClassInfo, name: str):
+            if name in {"__name__", "__qualname__"}:
+                return cls.qual.split("::")[-1] if name == "__qualname__" else cls.name
+            if name == "__module__":
+                return cls.module.name
+            if name == "__mro__":
+                return (*[MRef(c.qual) for c in self.tree.mro(cls)], *[MRef(b) for b in self._ext_bases(cls)], ("builtin", "object"))
+            if name == "__bases__":
+                return tuple(MRef(b) for b in cls.bases) or (("builtin", "object"),)
+            c, st = self._class_statement(cls, name)
+            if c is None:
+                if name == "__dataclass_fields__" and self._dataclass_like(cls):
+                    return {f[0]: f for f in self._fields_of(cls)}
+                return _NOTHING
+            if not isinstance(st, FuncInfo):
+                return self._class_constant(c, st)
+            decos = {unparse(d.func if isinstance(d, ast.Call) else d).split(".")[-1] for d in st.node.decorator_list}
+            if decos & {"property", "cached_property"}:
+                raise ModelError(f"property {st.qual} read through the class has no model")
+            if "classmethod" in decos:
+                return lambda a, k, m=st: self.call_function(m, [ref, *a], k)
+            return _FuncRef(st)
+
+        def _dataclass_like(self, cls: ClassInfo) -> str | None:
+            for c in self.tree.mro(cls):
+                if any(t in _DATACLASS_DECORATORS for t, _ in c.decorators):
+                    return "dataclass"
+            if any(b in {"typing.NamedTuple", "NamedTuple"} for b in self.tree.external_bases(cls)):
+                return "namedtuple"
+            return None
+
+        def _fields_of(self, cls: ClassInfo) -> list[tuple]:
+            """(attribute name, init name, default node | None, factory node | None, converter node | None, init?, class)"""
+            out: dict[str, tuple] = {}
+            for c in reversed(self.tree.mro(cls)):
+                for st in c.node.body:
+                    if not (isinstance(st, ast.AnnAssign) and isinstance(st.target, ast.Name)) or unparse(st.annotation).split("[")[0].split(".")[-1] == "ClassVar":
+                        continue
+                    default = factory = converter = None
+                    init = True
+                    if isinstance(st.value, ast.Call) and self.tree.resolve(c.module, st.value.func) in _FIELD_CALLS:
+                        for kw in st.value.keywords:
+                            if kw.arg == "default":
+                                default = kw.value
+                            elif kw.arg in {"default_factory", "factory"}:
+                                factory = kw.value
+                            elif kw.arg == "converter":
+                                converter = kw.value
+                            elif kw.arg == "init" and isinstance(kw.value, ast.Constant):
+                                init = bool(kw.value.value)
+                    elif st.value is not None:
+                        default = st.value
+                    attrs_style = any(t.startswith(("attrs.", "attr.")) for t, _ in c.decorators)
+                    out[st.target.id] = (st.target.id, st.target.id.lstrip("_") if attrs_style else st.target.id, default, factory, converter, init, c)
+            return list(out.values())
+
+        def allocate(self, ref, value_args: list | None = None):
+            cls = self.repo_class(ref)
+            if cls is None:
+                raise ModelError(f"allocation of an instance of {ref!r} has no model")
+            obj = Instance(f"{cls.name} object", cls, kinds=self._class_kinds(cls), open=False)
+            bases = [b for b in self._ext_bases(cls) if b in _VALUE_BASES]
+            if bases and value_args is not None:
+                py = _VALUE_BASES[bases[0]]
+                if py in {tuple, frozenset}:
+                    value = py(self.iterate(value_args[0])) if value_args else py()
+                elif value_args and not isinstance(value_args[0], (MObj, MRef, _FuncRef)):
+                    value = value_args[0]
+                elif value_args:
+                    value = self._str(value_args[0]) if py is str else _NOTHING
+                else:
+                    value = py()
+                if value is _NOTHING:
+                    raise ModelError(f"{bases[0]}({value_args[0]!r}) has no model")
+                obj.attrs["__value__"] = value
+                if py is tuple:
+                    obj.attrs.update({"__iter__": lambda a, k, v=value: list(v), "__len__": lambda a, k, v=value: len(v),
+                                      "__getitem__": lambda a, k, v=value: self.ev(ast.Subscript(value=ast.Name(id="_o", ctx=ast.Load()), slice=ast.Name(id="_i", ctx=ast.Load()), ctx=ast.Load()), {"_o": v, "_i": a[0]}, None, 0)})
+            return obj
+
+        def instantiate(self, ref: MRef, cls: ClassInfo, args: list, kwargs: dict):
+            new = self.tree.lookup_method(cls, "__new__")
+            if new is not None:
+                obj = self.call_function(new, [ref, *args], kwargs)
+                if not (isinstance(obj, Instance) and obj.cls is not None and cls in self.tree.mro(obj.cls)):
+                    return obj
+            else:
+                obj = self.allocate(ref, list(args))
+            init = self.tree.lookup_method(cls, "__init__")
+            if init is not None:
+                self.call_function(init, [obj, *args], kwargs)
+            elif new is None:
+                self._auto_init(cls, obj, args, kwargs)
+            return obj
+
+        def _auto_init(self, cls: ClassInfo, obj, args: list, kwargs: dict) -> None:
+            style = self._dataclass_like(cls)
+            if style is None:
+                if (args or kwargs) and "__value__" not in obj.attrs:
+                    if self._ext_bases(cls):
+                        raise ModelError(f"{cls.name}(...): the constructor of the external base {self._ext_bases(cls)[0]} has no model")
+                    raise ModelRaise("TypeError", f"{cls.name}() takes no arguments")
+                return
+            fields = self._fields_of(cls)
+            params = [f for f in fields if f[5]]
+            if len(args) > len(params):
+                raise ModelRaise("TypeError", f"{cls.name}() takes {len(params)} positional arguments but {len(args)} were given")
+            given = {f[1]: v for f, v in zip(params, args)}
+            for k_, v in kwargs.items():
+                if k_ in given:
+                    raise ModelRaise("TypeError", f"{cls.name}() got multiple values for argument {k_}")
+                if k_ not in {f[1] for f in params}:
+                    raise ModelRaise("TypeError", f"{cls.name}() got an unexpected keyword argument {k_}")
+                given[k_] = v
+            values = []
+            for attr, init_name, default, factory, converter, init, c in fields:
+                scope = self._body_scope(c)
+                if init and init_name in given:
+                    v = given[init_name]
+                elif factory is not None:
+                    v = self.apply(self.ev(factory, {}, scope, 0), [], {})
+                elif default is not None:
+                    v = self.ev(default, {}, scope, 0)
+                elif init:
+                    raise ModelRaise("TypeError", f"{cls.name}() missing required argument {init_name}")
+                else:
+                    continue
+                if converter is not None:
+                    v = self.apply(self.ev(converter, {}, scope, 0), [v], {})
+                obj.attrs[attr] = v
+                values.append(v)
+            names = [f[0] for f in fields]
+            if style == "namedtuple":
+                obj.attrs.update({"__iter__": lambda a, k: [obj.attrs[n] for n in names], "__len__": lambda a, k: len(names), "_fields": tuple(names),
+                                  "__getitem__": lambda a, k: [obj.attrs[n] for n in names][a[0]] if isinstance(a[0], int) and -len(names) <= a[0] < len(names) else self._raise("IndexError", "tuple index out of range"),
+                                  "_asdict": lambda a, k: {n: obj.attrs[n] for n in names},
+                                  "_replace": lambda a, k: self.instantiate(MRef(cls.qual), cls, [], {**{n: obj.attrs[n] for n in names}, **k})})
+            if self.tree.lookup_method(cls, "__eq__") is None:
+                obj.attrs["__eq__"] = lambda a, k: (isinstance(a[0], Instance) and a[0].cls is obj.cls or (style == "namedtuple" and isinstance(a[0], tuple))) and \
+                    len(self.iterate(a[0]) if style == "namedtuple" else names) == len(names) and \
+                    all(self.compare(ast.Eq(), obj.attrs[n], y, None) for n, y in zip(names, self.iterate(a[0]) if style == "namedtuple" else [a[0].attrs.get(n, _NOTHING) for n in names]))
+            for hook in ("__post_init__", "__attrs_post_init__"):
+                m = self.tree.lookup_method(cls, hook)
+                if m is not None:
+                    self.call_function(m, [obj], {})
+
+        @staticmethod
+        def _raise(kind: str, msg: str = ""):
+            raise ModelRaise(kind, msg)
+
+        # ------------------------------------------------------------------ calls and attributes
+        def apply(self, f, args: list, kwargs: dict, depth: int = 0, node=None):
+            cls = self.repo_class(f)
+            if cls is not None and f.name not in self.externals:
+                return self.instantiate(f, cls, list(args), dict(kwargs))
+            if isinstance(f, tuple) and len(f) == 2 and f[0] == "builtin" and f[1] == "object" and not args:
+                return MObj("object()", open=False)
+            return super().apply(f, args, kwargs, depth, node)
+
+        def assign(self, target, v, env: dict, fn, depth: int) -> None:
+            if isinstance(target, ast.Attribute):
+                base = self.ev(target.value, env, fn, depth)
+                if isinstance(base, _FuncRef):  # `wrapper.__signature__ = ...`: a function is an object with attributes
+                    if not hasattr(base, "attrs"):
+                        base.attrs = {}
+                    base.attrs[target.attr] = v
+                    return
+            super().assign(target, v, env, fn, depth)
+
+        def getattr(self, base, name: str, node=None):
+            if isinstance(base, _ObjSuper):
+                return self._super_attr(base, name)
+            if isinstance(base, _FuncRef):
+                own = getattr(base, "attrs", {})
+                if name in own:
+                    return own[name]
+                fnode = base.node if base.node is not None else base.fn.node
+                if name == "__name__":
+                    return getattr(fnode, "name", "<lambda>")
+                if name == "__qualname__":
+                    return base.fn.qual.split("::")[-1] if base.fn is not None else getattr(fnode, "name", "<lambda>")
+                if name == "__module__":
+                    return base.fn.module.name if base.fn is not None else (base.scope.module.name if base.scope is not None else None)
+                if name == "__doc__":
+                    return ast.get_docstring(fnode) if isinstance(fnode, ast.FunctionDef) else None
+                if name in {"__dict__"}:
+                    return dict(own)
+                raise ModelRaise("AttributeError", f"function object has no attribute {name}")
+            cls = self.repo_class(base)
+            if cls is not None:
+                found = self.class_getattr(base, cls, name)
+                if found is not _NOTHING:
+                    return found
+                for b in self._ext_bases(cls):
+                    if b in _VALUE_BASES:
+                        return self._value_base_method(_VALUE_BASES[b], name)
+            if isinstance(base, tuple) and len(base) == 2 and base[0] == "builtin" and isinstance(base[1], str):
+                return self._builtin_type_attr(base[1], name)
+            if isinstance(base, MObj) and "__value__" in base.attrs and name not in base.attrs and getattr(base, "cls", None) is not None \
+                    and self._class_statement(base.cls, name)[0] is None and not name.startswith("__"):
+                native = self.getattr(base.attrs["__value__"], name, node)  # str / tuple methods of a value subclass
+                return native
+            if isinstance(base, MObj) and name not in base.attrs and getattr(base, "cls", None) is None and isinstance(base.attrs.get("__class__"), MObj) \
+                    and not (getattr(base, "dynamic", None) and name in base.dynamic) and name in base.attrs["__class__"].attrs:
+                # an instance of a MODEL class (a class object the rule built): what the instance does not answer is looked up
+                # in the class; functions found there are bound to the instance
+                base.reads.append(name)
+                v = base.attrs["__class__"].attrs[name]
+                if isinstance(v, _FuncRef) or (callable(v) and not isinstance(v, MObj)):
+                    return lambda a, k, v=v: self.apply(v, [base, *a], k)
+                return v
+            return super().getattr(base, name, node)
+
+        def _builtin_type_attr(self, tname: str, name: str):
+            if name in {"__name__", "__qualname__"}:
+                return tname
+            if name == "__module__":
+                return "builtins"
+            if name == "__mro__":
+                return (("builtin", tname), ("builtin", "object")) if tname != "object" else (("builtin", "object"),)
+            py = {**_VALUE_BASES, "object": object, "dict": dict, "list": list, "set": set, "NoneType": type(None), "bool": bool}.get(tname)
+            if py is not None and not hasattr(py, name):
+                raise ModelRaise("AttributeError", f"type object '{tname}' has no attribute '{name}'")
+            if py is not None:
+                return self._value_base_method(py, name)
+            raise ModelError(f"attribute {tname}.{name} of a builtin type has no model")
+
+        def _value_of(self, v):
+            return v.attrs["__value__"] if isinstance(v, MObj) and "__value__" in v.attrs else v
+
+        def _value_base_method(self, py, name: str):
+            """``str.__eq__`` / ``object.__new__`` / ... as unbound functions of the model."""
+            val = self._value_of
+            if name == "__new__":
+                return lambda a, k: self.allocate(a[0], list(a[1:])) if self.repo_class(a[0]) is not None else self._raise_model(f"{py.__name__}.__new__({a[0]!r}) has no model")
+            if name == "__init__" or name == "__init_subclass__":
+                return lambda a, k: None
+            if name == "__setattr__":
+                return lambda a, k: a[0].attrs.__setitem__(a[1], a[2]) if isinstance(a[0], MObj) else self._raise_model("object.__setattr__ on a non-model object")
+            if name == "__getattribute__":
+                return lambda a, k: self.getattr(a[0], a[1])
+            if py is object:
+                if name == "__eq__":
+                    return lambda a, k: a[0] is a[1]
+                if name == "__ne__":
+                    return lambda a, k: a[0] is not a[1]
+                if name == "__hash__":
+                    return lambda a, k: id(a[0])
+                raise ModelError(f"object.{name} has no model")
+
+            def plain_value(v):
+                v = val(v)
+                if isinstance(v, (MObj, MRef, _FuncRef)):
+                    raise ModelError(f"{py.__name__}.{name} on {v!r} has no model")
+                return v
+
+            if name == "__eq__":
+                return lambda a, k: not isinstance(val(a[1]), (MObj, MRef, _FuncRef)) and isinstance(val(a[1]), py) and plain_value(a[0]) == val(a[1])
+            if name == "__ne__":
+                return lambda a, k: not (not isinstance(val(a[1]), (MObj, MRef, _FuncRef)) and isinstance(val(a[1]), py) and plain_value(a[0]) == val(a[1]))
+            if name == "__hash__":
+                return lambda a, k: hash(plain_value(a[0])) if py is not tuple else 0
+            if name in {"__str__", "__repr__"}:
+                return lambda a, k: str(plain_value(a[0])) if name == "__str__" else repr(plain_value(a[0]))
+            if name in {"__lt__", "__le__", "__gt__", "__ge__"}:
+                import operator as _op
+
+                return lambda a, k: getattr(_op, name.strip("_"))(plain_value(a[0]), plain_value(a[1]))
+            native = getattr(py, name, None)
+            if native is not None and callable(native) and not name.startswith("__"):
+                return lambda a, k: self.apply(self.getattr(plain_value(a[0]), name), list(a[1:]), k)
+            raise ModelError(f"{py.__name__}.{name} has no model")
+
+        @staticmethod
+        def _raise_model(msg: str):
+            raise ModelError(msg)
+
+        def _super_attr(self, sup: _ObjSuper, name: str):
+            c, st = self._class_statement(sup.of, name, sup.after)
+            inst = sup.inst
+            if c is not None:
+                if not isinstance(st, FuncInfo):
+                    return self._class_constant(c, st)
+                decos = {unparse(d.func if isinstance(d, ast.Call) else d).split(".")[-1] for d in st.node.decorator_list}
+                if name == "__new__" or "staticmethod" in decos:
+                    return _FuncRef(st)
+                if decos & {"property", "cached_property"}:
+                    return self.call_function(st, [inst], {})
+                return lambda a, k, m=st: self.call_function(m, [inst, *a], k)
+            if isinstance(inst, MObj) and "__super__" in inst.attrs:  # a model the rule supplied for the external base
+                return super().getattr(inst.attrs["__super__"], name)
+            ext = self._ext_bases(sup.of)
+            py = next((_VALUE_BASES[b] for b in ext if b in _VALUE_BASES), None)
+            if py is None and ext:
+                target = f"{ext[0]}.{name}"
+                if target in self.externals:
+                    unbound = self.externals[target]
+                    return unbound if name == "__new__" else (lambda a, k: unbound([inst, *a], k))
+                raise ModelError(f"super().{name}: the method of the external base {ext[0]} has no model")
+            unbound = self._value_base_method(py or object, name)
+            if name == "__new__":
+                return unbound
+            return lambda a, k: unbound([inst, *a], k)
+
+        def compare(self, op, a, b, node) -> bool:
+            if isinstance(op, (ast.Is, ast.IsNot)) and all(isinstance(x, tuple) and len(x) == 2 and x[0] == "builtin" and isinstance(x[1], str) for x in (a, b)):
+                return (a == b) == isinstance(op, ast.Is)  # a builtin type is one object however often the name is evaluated
+            if isinstance(op, (ast.Eq, ast.NotEq)) and type(a) is type(b) and isinstance(a, (tuple, list)) and not (len(a) == 2 and a[0] == "builtin") and not (len(b) == 2 and b[0] == "builtin"):
+                same = len(a) == len(b) and all(self.compare(ast.Eq(), x, y, node) for x, y in zip(a, b))  # element-wise, with the elements' own __eq__
+                return same if isinstance(op, ast.Eq) else not same
+            if isinstance(op, (ast.Eq, ast.NotEq)):
+                for x, y in ((a, b), (b, a)):
+                    cls = getattr(x, "cls", None) if isinstance(x, MObj) else None
+                    if cls is None:
+                        continue
+                    hook = "__ne__" if isinstance(op, ast.NotEq) and self.tree.lookup_method(cls, "__ne__") is not None else "__eq__"
+                    m = self.tree.lookup_method(cls, hook) if hook not in x.attrs else None
+                    if m is not None:
+                        res = self.truth(self.call_function(m, [x, y], {}))
+                        return res if (hook == "__ne__") == isinstance(op, ast.NotEq) else not res
+                    if hook not in x.attrs and "__value__" in x.attrs:
+                        same = not isinstance(self._value_of(y), (MObj, MRef, _FuncRef)) and x.attrs["__value__"] == self._value_of(y)
+                        return same if isinstance(op, ast.Eq) else not same
+            return super().compare(op, a, b, node)
+
+        def _str(self, v) -> str:
+            if isinstance(v, MObj) and "__value__" in v.attrs and "__str__" not in v.attrs and (getattr(v, "cls", None) is None or self.tree.lookup_method(v.cls, "__str__") is None):
+                return str(v.attrs["__value__"])
+            if isinstance(v, MRef) and v.name in self.tree.classes:
+                c = self.tree.classes[v.name]
+                return f"<class '{c.module.name}.{c.qual.split('::')[-1]}'>"
+            if isinstance(v, tuple) and len(v) == 2 and v[0] == "builtin":
+                return f"<class '{v[1]}'>"
+            return super()._str(v)
+
+        def iterate(self, v, node=None) -> list:
+            if isinstance(v, MObj) and "__iter__" not in v.attrs and "__value__" in v.attrs and isinstance(v.attrs["__value__"], (str, tuple, frozenset)):
+                return list(v.attrs["__value__"])
+            return super().iterate(v, node)
+
+        def _hash_check(self, key) -> None:
+            if isinstance(key, Instance) and key.cls is not None and self.tree.lookup_method(key.cls, "__eq__") is not None:
+                c, st = self._class_statement(key.cls, "__hash__")
+                eq_c, _ = self._class_statement(key.cls, "__eq__")
+                if c is None or (c is not eq_c and eq_c in self.tree.mro(key.cls) and self.tree.mro(key.cls).index(eq_c) < self.tree.mro(key.cls).index(c)):
+                    raise ModelRaise("TypeError", f"unhashable type: {key.cls.name} defines __eq__ without __hash__")
+            super()._hash_check(key)
+
+        def _resolved(self, target: str):
+            if target not in self.externals and target not in self.tree.funcs and target not in self.tree.classes and "::" in target:
+                # a module-level constant of the package (`_TYPOS = ["_latex_repr"]`): its value, evaluated once per interpreter
+                modname, _, name = target.partition("::")
+                mod = self.tree.modules.get(modname)
+                st = mod.toplevel.get(name) if mod is not None and "." not in name else None
+                value = st.value if isinstance(st, (ast.Assign, ast.AnnAssign)) else None
+                if value is not None and (not isinstance(st, ast.Assign) or (len(st.targets) == 1 and isinstance(st.targets[0], ast.Name))):
+                    key = ("module constant", target)
+                    if key not in self.memo:
+                        scope = FuncInfo(f"{modname}::<module>", ast.FunctionDef(name="<module>", args=ast.arguments(posonlyargs=[], args=[], kwonlyargs=[], kw_defaults=[], defaults=[]), body=[], decorator_list=[]), mod, None, None)
+                        self.memo[key] = None  # (a constant that refers to itself has no value)
+                        self.memo[key] = self.ev(value, {}, scope, 0)
+                    return self.memo[key]
+            return super()._resolved(target)
+
+        # ------------------------------------------------------------------ builtins
+        def _builtin(self, name: str):
+            if name == "super":
+                return self._super_builtin
+            if name == "issubclass":
+                return self._issubclass
+            if name == "isinstance":
+                inner = super()._builtin(name)
+
+                def isinstance_(a, k):
+                    classes = a[1] if isinstance(a[1], tuple) and not (len(a[1]) == 2 and a[1][0] == "builtin") else (a[1],)
+                    if any(callable(c) and not isinstance(c, (MObj, MRef, _FuncRef)) for c in classes):
+                        # a class of the standard library whose CALL has a model (functools.partial): as a class it is its name
+                        named = tuple(MRef(next((n for n, f in self.externals.items() if f is c), "?")) if callable(c) and not isinstance(c, (MObj, MRef, _FuncRef)) else c for c in classes)
+                        a = [a[0], named if len(named) > 1 else named[0], *a[2:]]
+                    if isinstance(a[0], (MRef, _FuncRef)) or (isinstance(a[0], tuple) and len(a[0]) == 2 and a[0][0] == "builtin" and isinstance(a[0][1], str) and a[0][1] in {"str", "int", "NoneType", "object", "dict", "list", "tuple", "float", "bool", "set", "frozenset", "type"}):
+                        classes = a[1] if isinstance(a[1], tuple) and not (len(a[1]) == 2 and a[1][0] == "builtin") else (a[1],)
+                        names = {c[1] if isinstance(c, tuple) else getattr(c, "name", "") for c in classes}
+                        if isinstance(a[0], _FuncRef):
+                            return bool(names & {"types.FunctionType", "collections.abc.Callable", "typing.Callable", "object"})
+                        return bool(names & {"type", "object"}) and not (isinstance(a[0], MRef) and a[0].name not in self.tree.classes and "type" not in names and "object" not in names)
+                    return inner(a, k)
+
+                return isinstance_
+            if name == "callable":
+                inner = super()._builtin(name)
+                return lambda a, k: True if (self.repo_class(a[0]) is not None or (isinstance(a[0], Instance) and a[0].cls is not None and self.tree.lookup_method(a[0].cls, "__call__") is not None)
+                                             or (isinstance(a[0], tuple) and len(a[0]) == 2 and a[0][0] == "builtin")) else inner(a, k)
+            if name == "hasattr":
+                inner = super()._builtin(name)
+
+                def hasattr_(a, k):
+                    if not isinstance(a[0], (MObj, MRef, _FuncRef)) and not (isinstance(a[0], tuple) and len(a[0]) == 2 and a[0][0] == "builtin") and not callable(a[0]):
+                        return hasattr(a[0], a[1])  # a plain Python value models itself
+                    cls = self.repo_class(a[0])
+                    if cls is not None:
+                        return self.class_getattr(a[0], cls, a[1]) is not _NOTHING
+                    if isinstance(a[0], Instance) and a[0].cls is not None and a[1] not in a[0].attrs and self._class_statement(a[0].cls, a[1])[0] is not None:
+                        return True
+                    return inner(a, k)
+
+                return hasattr_
+            if name == "vars":
+                return lambda a, k: dict(a[0].attrs) if isinstance(a[0], Instance) and a[0].cls is not None else self._raise_model("vars() of this object has no model")
+            return super()._builtin(name)
+
+        def _issubclass(self, a, k):
+            classes = a[1] if isinstance(a[1], tuple) and not (len(a[1]) == 2 and a[1][0] == "builtin") else (a[1],)
+            sub = a[0]
+            if isinstance(sub, MObj) and "class" in sub.kinds:
+                names = set(sub.attrs.get("__bases_names__", ())) | {sub.attrs.get("__qual__", "")}
+            elif self.repo_class(sub) is not None:
+                names = self._class_kinds(self.repo_class(sub))
+            elif isinstance(sub, MRef):
+                names = {sub.name}
+            elif isinstance(sub, tuple) and len(sub) == 2 and sub[0] == "builtin":
+                names = {sub[1], "object"}
+            else:
+                raise ModelRaise("TypeError", "issubclass() arg 1 must be a class")
+            for c in classes:
+                cname = c.name if isinstance(c, MRef) else c[1] if isinstance(c, tuple) and len(c) == 2 and c[0] == "builtin" else c.attrs.get("__qual__") if isinstance(c, MObj) else None
+                if cname is None:
+                    raise ModelError(f"issubclass(..., {c!r}) has no model")
+                if cname == "object" or cname in names or cname.split(".")[-1].split("::")[-1] in {n.split(".")[-1].split("::")[-1] for n in names}:
+                    return True
+            return False
+
+        def _super_builtin(self, a, k):
+            if a:
+                inst = a[1] if len(a) > 1 else None
+                if isinstance(inst, MObj) and "__super__" in inst.attrs:
+                    return inst.attrs["__super__"]
+                cls = self.repo_class(a[0])
+                if cls is not None and isinstance(inst, Instance) and inst.cls is not None:
+                    return _ObjSuper(inst, inst.cls, cls)
+                raise ModelError("super(C, obj) has no model here")
+            if not self.frames:
+                raise ModelError("super() outside a function of the model")
+            frame = self.frames[-1]
+            fn = frame.fn if isinstance(frame.fn, FuncInfo) else None
+            after = None
+            while fn is not None and after is None:
+                after, fn = fn.cls, fn.outer
+            inst = frame.self_obj
+            if after is None:
+                raise ModelError("super() outside a method")
+            if isinstance(inst, MObj) and getattr(inst, "cls", None) is None:
+                if "__super__" in inst.attrs:
+                    return inst.attrs["__super__"]
+                raise ModelError(f"super() of {inst!r}: the rule gave no model of the base class")
+            of = inst.cls if isinstance(inst, MObj) else self.repo_class(inst)
+            if of is None:
+                raise ModelError(f"super() with {inst!r} as first argument has no model")
+            return _ObjSuper(inst, of, after)
+
+        # ------------------------------------------------------------------ reflection / copying helpers of the standard library
+        def _reflection(self) -> dict:  # noqa: C901
+            it = self.iterate
+
+            def is_class(v) -> bool:
+                return (isinstance(v, MObj) and "class" in v.kinds) or isinstance(v, MRef) or (isinstance(v, tuple) and len(v) == 2 and v[0] == "builtin" and isinstance(v[1], str))
+
+            def is_function(v) -> bool:
+                return isinstance(v, _FuncRef) or (isinstance(v, MObj) and "function" in v.kinds) or (callable(v) and not isinstance(v, MObj) and hasattr(v, "fn") and hasattr(v, "inst"))
+
+            def model_fields(obj):
+                """The field objects of a model dataclass (class object or instance built by the rule), else None."""
+                if not isinstance(obj, MObj):
+                    return None
+                for holder in (obj, obj.attrs.get("__class__")):
+                    if isinstance(holder, MObj) and "__dataclass_fields__" in holder.attrs:
+                        f = holder.attrs["__dataclass_fields__"]
+                        return list(f.values() if isinstance(f, dict) else f)
+                return None
+
+            def dataclass_fields(obj):
+                f = model_fields(obj)
+                if f is not None:
+                    return [x.attrs["name"] if isinstance(x, MObj) else x for x in f]
+                cls = getattr(obj, "cls", None) if isinstance(obj, MObj) else None
+                if cls is not None and self._dataclass_like(cls) == "dataclass":
+                    return [f[0] for f in self._fields_of(cls)]
+                return None
+
+            def deep(v, callee, top=False):
+                names = dataclass_fields(v)
+                if names is not None and not (isinstance(v, MObj) and "class" in v.kinds):
+                    vals = [deep(self.getattr(v, n), callee) for n in names]
+                    return tuple(vals) if callee == "dataclasses.astuple" else dict(zip(names, vals))
+                if top:
+                    raise ModelRaise("TypeError", f"{callee.split('.')[-1]}() should be called on dataclass instances")
+                if isinstance(v, (list, tuple)):
+                    return type(v)(deep(x, callee) for x in v)
+                if isinstance(v, dict):
+                    return {deep(k_, callee): deep(x, callee) for k_, x in v.items()}
+                return v  # (copy.deepcopy of a leaf: an equal object - identity is not what the rules ask of leaves)
+
+            def astuple(a, k):
+                self.notes.append(("deep", "dataclasses.astuple", a[0]))
+                return deep(a[0], "dataclasses.astuple", top=True)
+
+            def asdict(a, k):
+                self.notes.append(("deep", "dataclasses.asdict", a[0]))
+                return deep(a[0], "dataclasses.asdict", top=True)
+
+            def deepcopy(a, k):
+                self.notes.append(("deep", "copy.deepcopy", a[0]))
+
+                def cp(v):
+                    if isinstance(v, MObj):
+                        c = MObj(f"deep copy of {v.label}", dict(v.attrs), kinds=v.kinds, open=v.open, truth=v.truth, hashable=v.hashable)
+                        c.attrs["__copy_of__"] = v
+                        return c
+                    if isinstance(v, (list, tuple, set, frozenset)):
+                        return type(v)(cp(x) for x in v)
+                    if isinstance(v, dict):
+                        return {k_: cp(x) for k_, x in v.items()}
+                    return v
+
+                return cp(a[0])
+
+            def fields(a, k):
+                obj = a[0]
+                f = model_fields(obj)
+                if f is not None:
+                    return tuple(f)
+                cls = getattr(obj, "cls", None) if isinstance(obj, MObj) else self.repo_class(obj)
+                if cls is not None and self._dataclass_like(cls) == "dataclass":
+                    return tuple(MObj(f"field {f[0]}", {"name": f[0], "metadata": {}}, kinds={"Field"}, open=False) for f in self._fields_of(cls))
+                raise ModelRaise("TypeError", "must be called with a dataclass type or instance")
+
+            def is_dataclass(a, k):
+                obj = a[0]
+                if model_fields(obj) is not None:
+                    return True
+                cls = getattr(obj, "cls", None) if isinstance(obj, MObj) else self.repo_class(obj)
+                return cls is not None and self._dataclass_like(cls) == "dataclass"
+
+            def dataclass(a, k):
+                if a and is_class(a[0]):
+                    return a[0]
+                return lambda a2, k2: a2[0]
+
+            def identity_decorator(a, k):
+                # functools.wraps(f) / functools.cache / lru_cache(maxsize=..): the decorated callable itself
+                if len(a) == 1 and not k and (isinstance(a[0], _FuncRef) or callable(a[0])) and not isinstance(a[0], MObj):
+                    return a[0]
+                return lambda a2, k2: a2[0]
+
+            def wraps(a, k):
+                return lambda a2, k2: a2[0]
+
+            def attrgetter(a, k):
+                def one(obj, path):
+                    for part in path.split("."):
+                        obj = self.getattr(obj, part)
+                    return obj
+
+                def get(a2, k2):
+                    if len(a) == 1:
+                        self.notes.append(("attrgetter-one-name", a[0]))
+                        return one(a2[0], a[0])
+                    return tuple(one(a2[0], p) for p in a)
+
+                if not a:
+                    raise ModelRaise("TypeError", "attrgetter expected 1 argument, got 0")
+                return get
+
+            def signature(a, k):
+                f = a[0]
+                kinds = {"posonly": "POSITIONAL_ONLY", "pos": "POSITIONAL_OR_KEYWORD", "var": "VAR_POSITIONAL", "kwonly": "KEYWORD_ONLY", "kw": "VAR_KEYWORD"}
+                spec: list[tuple[str, str]] | None = None
+                node = None
+                drop = 0
+                if isinstance(f, _FuncRef) and isinstance(getattr(f, "attrs", {}).get("__signature__"), MObj):
+                    return f.attrs["__signature__"]  # set explicitly (functools.wraps / a signature-editing decorator)
+                if isinstance(f, MObj) and "__signature__" in f.attrs:
+                    spec = list(f.attrs["__signature__"])
+                elif isinstance(f, _FuncRef):
+                    node = f.node if f.node is not None else f.fn.node
+                elif callable(f) and hasattr(f, "fn") and hasattr(f, "inst"):  # a bound method of the model
+                    node, drop = f.fn.node, 1
+                if spec is None and node is not None:
+                    ar = node.args
+                    spec = [*[(p.arg, "posonly") for p in ar.posonlyargs], *[(p.arg, "pos") for p in ar.args], *([(ar.vararg.arg, "var")] if ar.vararg else []),
+                            *[(p.arg, "kwonly") for p in ar.kwonlyargs], *([(ar.kwarg.arg, "kw")] if ar.kwarg else [])][drop:]
+                if spec is None:
+                    raise ModelError(f"inspect.signature({f!r}) has no model")
+                params = {n: MObj(f"parameter {n}", {"name": n, "kind": MRef(f"inspect.Parameter.{kinds[kd]}"), "default": MRef("inspect.Parameter.empty"), "annotation": MRef("inspect.Parameter.empty")}, open=False)
+                          for n, kd in spec}
+                return MObj("signature", {"parameters": params, "return_annotation": MRef("inspect.Signature.empty")}, open=False)
+
+            return {
+                "inspect.isclass": lambda a, k: is_class(a[0]),
+                "inspect.isfunction": lambda a, k: is_function(a[0]),
+                "inspect.isroutine": lambda a, k: is_function(a[0]) or (isinstance(a[0], MObj) and bool({"builtin-function", "method"} & a[0].kinds)),
+                "inspect.ismethod": lambda a, k: (isinstance(a[0], MObj) and "method" in a[0].kinds) or (callable(a[0]) and hasattr(a[0], "fn") and hasattr(a[0], "inst")),
+                "inspect.isbuiltin": lambda a, k: isinstance(a[0], MObj) and "builtin-function" in a[0].kinds,
+                "inspect.signature": signature,
+                "inspect.Parameter": lambda a, k: MObj(f"parameter {a[0] if a else k.get('name')}", {"name": a[0] if a else k.get("name"), "kind": a[1] if len(a) > 1 else k.get("kind"),
+                                                                                                      "default": k.get("default", MRef("inspect.Parameter.empty")), "annotation": k.get("annotation", MRef("inspect.Parameter.empty"))}, open=False),
+                "inspect.Signature": lambda a, k: MObj("signature", {"parameters": {p.attrs["name"]: p for p in it(a[0] if a else k.get("parameters", ()))},
+                                                                     "return_annotation": k.get("return_annotation", MRef("inspect.Signature.empty"))}, open=False),
+                "dataclasses.astuple": astuple, "dataclasses.asdict": asdict, "copy.deepcopy": deepcopy,
+                "dataclasses.fields": fields, "dataclasses.is_dataclass": is_dataclass, "dataclasses.dataclass": dataclass,
+                "functools.wraps": wraps, "functools.cache": identity_decorator, "functools.lru_cache": identity_decorator,
+                "types.MappingProxyType": lambda a, k: dict(a[0]) if isinstance(a[0], dict) else self._raise_model("MappingProxyType of a non-dict"),
+                "warnings.warn": lambda a, k: None,
+                "operator.attrgetter": attrgetter,
+                "typing.dataclass_transform": lambda a, k: (lambda a2, k2: a2[0]), "typing_extensions.dataclass_transform": lambda a, k: (lambda a2, k2: a2[0]),
+                "functools.update_wrapper": lambda a, k: a[0],
+                "typing.get_type_hints": lambda a, k: dict(self.getattr(a[0], "__annotations__")),
+                "sys.version_info": (3, 12, 0, "final", 0),
+            }
+
+    ObjExec.Instance = Instance  # type: ignore[attr-defined]
+    return ObjExec
